@@ -148,6 +148,14 @@ let rec nth_error l = function
            | [] -> None
            | _ :: l0 -> nth_error l0 n2)
 
+(** val removelast : 'a1 list -> 'a1 list **)
+
+let rec removelast = function
+| [] -> []
+| a :: l0 -> (match l0 with
+              | [] -> []
+              | _ :: _ -> a :: (removelast l0))
+
 (** val rev : 'a1 list -> 'a1 list **)
 
 let rec rev = function
@@ -407,12 +415,25 @@ module N =
                   | N0 -> Gt
                   | Npos m' -> Pos.compare n' m')
 
+  (** val leb : n -> n -> bool **)
+
+  let leb x y =
+    match compare x y with
+    | Gt -> false
+    | _ -> true
+
   (** val ltb : n -> n -> bool **)
 
   let ltb x y =
     match compare x y with
     | Lt -> true
     | _ -> false
+
+  (** val of_nat : nat -> n **)
+
+  let of_nat = function
+  | O -> N0
+  | S n' -> Npos (Pos.of_succ_nat n')
  end
 
 module Z =
@@ -616,6 +637,22 @@ module Z =
 type ascii =
 | Ascii of bool * bool * bool * bool * bool * bool * bool * bool
 
+(** val zero : ascii **)
+
+let zero =
+  Ascii (false, false, false, false, false, false, false, false)
+
+(** val one : ascii **)
+
+let one =
+  Ascii (true, false, false, false, false, false, false, false)
+
+(** val shift : bool -> ascii -> ascii **)
+
+let shift c = function
+| Ascii (a1, a2, a3, a4, a5, a6, a7, _) ->
+  Ascii (c, a1, a2, a3, a4, a5, a6, a7)
+
 (** val eqb0 : ascii -> ascii -> bool **)
 
 let eqb0 a b =
@@ -634,6 +671,30 @@ let eqb0 a b =
      else false
   then eqb a7 b7
   else false
+
+(** val ascii_of_pos : positive -> ascii **)
+
+let ascii_of_pos =
+  let rec loop n1 p =
+    match n1 with
+    | O -> zero
+    | S n' ->
+      (match p with
+       | XI p' -> shift true (loop n' p')
+       | XO p' -> shift false (loop n' p')
+       | XH -> one)
+  in loop (S (S (S (S (S (S (S (S O))))))))
+
+(** val ascii_of_N : n -> ascii **)
+
+let ascii_of_N = function
+| N0 -> zero
+| Npos p -> ascii_of_pos p
+
+(** val ascii_of_nat : nat -> ascii **)
+
+let ascii_of_nat a =
+  ascii_of_N (N.of_nat a)
 
 (** val n_of_digits : bool list -> n **)
 
@@ -1476,8 +1537,8 @@ let start_user g =
 (** val follow_table : grammar -> automaton -> (ntrans * nat list) list **)
 
 let follow_table g aut =
-  let nl = nullable_list g in
-  let nb = fun x -> nmem2 x nl in
+  let nl0 = nullable_list g in
+  let nb = fun x -> nmem2 x nl0 in
   map (fun x -> (x, (followl g aut (start_user g) nb (is_nt_b g) x)))
     (all_trans aut)
 
@@ -1782,7 +1843,7 @@ let generate_tables gi =
        (warnings gi aut tabl); t_conf = (conflict_cells gi aut tabl);
        t_packed = p; t_need_packed = (need_packed p n1 gi.gi_nsyms) }
      | None -> Inl ETooManyStates)
-  | _ :: l -> Inl (EUnproductive l)
+  | n1 :: l0 -> Inl (EUnproductive (n1 :: l0))
 
 (** val dense_action : nat -> z list list -> table **)
 
@@ -2668,7 +2729,7 @@ let build_grammar v =
             | [] ->
               Inr { b_syms = syms; b_gi = gi; b_rule_prec =
                 (None :: (map snd rs)); b_visited = v }
-            | _ :: l -> Inl (FUnproductive l))
+            | n2 :: l0 -> Inl (FUnproductive (n2 :: l0)))
          | k :: _ ->
            Inl (FNoRule
              (nth k syms { s_name = []; s_value = Z0; s_tag = []; s_declnt =
@@ -2723,3 +2784,5146 @@ let valid_codes decls final =
         (&&) (negb (existsb (Z.eqb (snd p)) (fixed_codes decls)))
           (negb (Z.eqb (snd p) (Zneg XH)))) final)
     (if nodup_z (fixed_codes decls) then nodup_z (map snd final) else true)
+
+type lkind =
+| LxError
+| LxIdentifier
+| LxNumber
+| LxSection
+| LxCodeQuote
+| LxActionQuote
+| LxEOF
+| LxType
+| LxToken
+| LxUnion
+| LxLeft
+| LxRight
+| LxNone
+| LxPrec
+| LxPrecedence
+| LxStart
+| LxActionSelf
+| LxActionN
+| LxActionAccept
+| LxActionEnd
+| LxOr
+| LxDefine
+| LxEnd
+| LxLAngle
+| LxRAngle
+| LxChar
+| LxString
+| LxFuel
+
+type tok0 = { t_kind : lkind; t_value : ascii list; t_rest : ascii list }
+
+type tail =
+| Closed
+| ErrorForEver
+
+(** val code : ascii -> n **)
+
+let code =
+  n_of_ascii
+
+(** val is_upper : ascii -> bool **)
+
+let is_upper c =
+  (&&) (N.leb (Npos (XI (XO (XO (XO (XO (XO XH))))))) (code c))
+    (N.leb (code c) (Npos (XO (XI (XO (XI (XI (XO XH))))))))
+
+(** val is_lower : ascii -> bool **)
+
+let is_lower c =
+  (&&) (N.leb (Npos (XI (XO (XO (XO (XO (XI XH))))))) (code c))
+    (N.leb (code c) (Npos (XO (XI (XO (XI (XI (XI XH))))))))
+
+(** val is_letter : ascii -> bool **)
+
+let is_letter c =
+  (||) (is_upper c) (is_lower c)
+
+(** val is_digit : ascii -> bool **)
+
+let is_digit c =
+  (&&) (N.leb (Npos (XO (XO (XO (XO (XI XH)))))) (code c))
+    (N.leb (code c) (Npos (XI (XO (XO (XI (XI XH)))))))
+
+(** val is_idch : ascii -> bool **)
+
+let is_idch c =
+  (||) ((||) (is_letter c) (is_digit c))
+    (eqb0 c (Ascii (true, true, true, true, true, false, true, false)))
+
+(** val nl : ascii **)
+
+let nl =
+  ascii_of_nat (S (S (S (S (S (S (S (S (S (S O))))))))))
+
+(** val tabc : ascii **)
+
+let tabc =
+  ascii_of_nat (S (S (S (S (S (S (S (S (S O)))))))))
+
+(** val quote : ascii **)
+
+let quote =
+  ascii_of_nat (S (S (S (S (S (S (S (S (S (S (S (S (S (S (S (S (S (S (S (S (S
+    (S (S (S (S (S (S (S (S (S (S (S (S (S (S (S (S (S (S
+    O)))))))))))))))))))))))))))))))))))))))
+
+(** val dquote : ascii **)
+
+let dquote =
+  ascii_of_nat (S (S (S (S (S (S (S (S (S (S (S (S (S (S (S (S (S (S (S (S (S
+    (S (S (S (S (S (S (S (S (S (S (S (S (S O))))))))))))))))))))))))))))))))))
+
+(** val bslash : ascii **)
+
+let bslash =
+  ascii_of_nat (S (S (S (S (S (S (S (S (S (S (S (S (S (S (S (S (S (S (S (S (S
+    (S (S (S (S (S (S (S (S (S (S (S (S (S (S (S (S (S (S (S (S (S (S (S (S
+    (S (S (S (S (S (S (S (S (S (S (S (S (S (S (S (S (S (S (S (S (S (S (S (S
+    (S (S (S (S (S (S (S (S (S (S (S (S (S (S (S (S (S (S (S (S (S (S (S
+    O))))))))))))))))))))))))))))))))))))))))))))))))))))))))))))))))))))))))))))))))))))))))))))
+
+(** val is_ws : ascii -> bool **)
+
+let is_ws c =
+  (||)
+    ((||)
+      (eqb0 c (Ascii (false, false, false, false, false, true, false, false)))
+      (eqb0 c tabc)) (eqb0 c nl)
+
+(** val strip : ascii list -> ascii list -> ascii list option **)
+
+let rec strip p s =
+  match p with
+  | [] -> Some s
+  | x :: p' ->
+    (match s with
+     | [] -> None
+     | y :: s' -> if eqb0 x y then strip p' s' else None)
+
+(** val has_prefix : ascii list -> ascii list -> bool **)
+
+let has_prefix p s =
+  match strip p s with
+  | Some _ -> true
+  | None -> false
+
+(** val skip_spaces : ascii list -> ascii list **)
+
+let rec skip_spaces s = match s with
+| [] -> s
+| a :: s' ->
+  let Ascii (b, b0, b1, b2, b3, b4, b5, b6) = a in
+  if b
+  then s
+  else if b0
+       then s
+       else if b1
+            then s
+            else if b2
+                 then s
+                 else if b3
+                      then s
+                      else if b4
+                           then if b5
+                                then s
+                                else if b6 then s else skip_spaces s'
+                           else s
+
+(** val take_while :
+    (ascii -> bool) -> ascii list -> ascii list * ascii list **)
+
+let rec take_while f s = match s with
+| [] -> ([], [])
+| c :: s' ->
+  if f c then let (a, r) = take_while f s' in ((c :: a), r) else ([], s)
+
+(** val accept_alpha_word : ascii list -> ascii list -> ascii list option **)
+
+let accept_alpha_word w s =
+  match strip w (skip_spaces s) with
+  | Some r ->
+    (match r with
+     | [] -> Some r
+     | c :: _ -> if is_idch c then None else Some r)
+  | None -> None
+
+(** val accept_word : ascii list -> ascii list -> ascii list option **)
+
+let accept_word w s =
+  match strip w (skip_spaces s) with
+  | Some r ->
+    (match r with
+     | [] -> Some r
+     | c :: _ -> if is_ws c then Some r else None)
+  | None -> None
+
+(** val after_line : ascii list -> ascii list **)
+
+let rec after_line = function
+| [] -> []
+| c :: s' -> if eqb0 c nl then s' else after_line s'
+
+(** val block_comment : bool -> ascii list -> ascii list option **)
+
+let rec block_comment star = function
+| [] -> None
+| c :: s' ->
+  if (&&) star
+       (eqb0 c (Ascii (true, true, true, true, false, true, false, false)))
+  then Some s'
+  else block_comment
+         (eqb0 c (Ascii (false, true, false, true, false, true, false,
+           false))) s'
+
+(** val braces : nat -> ascii list -> (ascii list * ascii list) option **)
+
+let rec braces depth = function
+| [] -> None
+| c :: s' ->
+  if eqb0 c (Ascii (true, true, false, true, true, true, true, false))
+  then (match braces (S depth) s' with
+        | Some p -> let (a, r) = p in Some ((c :: a), r)
+        | None -> None)
+  else if eqb0 c (Ascii (true, false, true, true, true, true, true, false))
+       then (match depth with
+             | O -> Some ((c :: []), s')
+             | S d0 ->
+               (match d0 with
+                | O -> Some ((c :: []), s')
+                | S _ ->
+                  (match braces d0 s' with
+                   | Some p -> let (a, r) = p in Some ((c :: a), r)
+                   | None -> None)))
+       else (match braces depth s' with
+             | Some p -> let (a, r) = p in Some ((c :: a), r)
+             | None -> None)
+
+(** val code_end : ascii list -> (ascii list * ascii list) option **)
+
+let rec code_end = function
+| [] -> None
+| c :: s' ->
+  if eqb0 c (Ascii (true, false, true, false, false, true, false, false))
+  then (match s' with
+        | [] ->
+          (match code_end s' with
+           | Some p -> let (a, r) = p in Some ((c :: a), r)
+           | None -> None)
+        | a :: r ->
+          let Ascii (b, b0, b1, b2, b3, b4, b5, b6) = a in
+          if b
+          then if b0
+               then (match code_end s' with
+                     | Some p -> let (a0, r0) = p in Some ((c :: a0), r0)
+                     | None -> None)
+               else if b1
+                    then if b2
+                         then if b3
+                              then if b4
+                                   then if b5
+                                        then if b6
+                                             then (match code_end s' with
+                                                   | Some p ->
+                                                     let (a0, r0) = p in
+                                                     Some ((c :: a0), r0)
+                                                   | None -> None)
+                                             else (match r with
+                                                   | [] -> Some ([], r)
+                                                   | d0 :: _ ->
+                                                     if is_ws d0
+                                                     then Some ([], r)
+                                                     else (match code_end s' with
+                                                           | Some p ->
+                                                             let (a0, r0) = p
+                                                             in
+                                                             Some ((c :: a0),
+                                                             r0)
+                                                           | None -> None))
+                                        else (match code_end s' with
+                                              | Some p ->
+                                                let (a0, r0) = p in
+                                                Some ((c :: a0), r0)
+                                              | None -> None)
+                                   else (match code_end s' with
+                                         | Some p ->
+                                           let (a0, r0) = p in
+                                           Some ((c :: a0), r0)
+                                         | None -> None)
+                              else (match code_end s' with
+                                    | Some p ->
+                                      let (a0, r0) = p in Some ((c :: a0), r0)
+                                    | None -> None)
+                         else (match code_end s' with
+                               | Some p ->
+                                 let (a0, r0) = p in Some ((c :: a0), r0)
+                               | None -> None)
+                    else (match code_end s' with
+                          | Some p -> let (a0, r0) = p in Some ((c :: a0), r0)
+                          | None -> None)
+          else (match code_end s' with
+                | Some p -> let (a0, r0) = p in Some ((c :: a0), r0)
+                | None -> None))
+  else (match code_end s' with
+        | Some p -> let (a, r) = p in Some ((c :: a), r)
+        | None -> None)
+
+(** val string_body : ascii list -> (ascii list * ascii list) option **)
+
+let rec string_body = function
+| [] -> None
+| c :: s' ->
+  if eqb0 c dquote
+  then Some ([], s')
+  else if eqb0 c bslash
+       then (match s' with
+             | [] -> None
+             | d0 :: s'' ->
+               (match string_body s'' with
+                | Some p ->
+                  let (a, r) = p in
+                  Some (((if eqb0 d0 dquote then dquote else bslash) :: a), r)
+                | None -> None))
+       else (match string_body s' with
+             | Some p -> let (a, r) = p in Some ((c :: a), r)
+             | None -> None)
+
+(** val w_type : ascii list **)
+
+let w_type =
+  (Ascii (false, false, true, false, true, true, true, false)) :: ((Ascii
+    (true, false, false, true, true, true, true, false)) :: ((Ascii (false,
+    false, false, false, true, true, true, false)) :: ((Ascii (true, false,
+    true, false, false, true, true, false)) :: [])))
+
+(** val w_token : ascii list **)
+
+let w_token =
+  (Ascii (false, false, true, false, true, true, true, false)) :: ((Ascii
+    (true, true, true, true, false, true, true, false)) :: ((Ascii (true,
+    true, false, true, false, true, true, false)) :: ((Ascii (true, false,
+    true, false, false, true, true, false)) :: ((Ascii (false, true, true,
+    true, false, true, true, false)) :: []))))
+
+(** val w_union : ascii list **)
+
+let w_union =
+  (Ascii (true, false, true, false, true, true, true, false)) :: ((Ascii
+    (false, true, true, true, false, true, true, false)) :: ((Ascii (true,
+    false, false, true, false, true, true, false)) :: ((Ascii (true, true,
+    true, true, false, true, true, false)) :: ((Ascii (false, true, true,
+    true, false, true, true, false)) :: []))))
+
+(** val w_left : ascii list **)
+
+let w_left =
+  (Ascii (false, false, true, true, false, true, true, false)) :: ((Ascii
+    (true, false, true, false, false, true, true, false)) :: ((Ascii (false,
+    true, true, false, false, true, true, false)) :: ((Ascii (false, false,
+    true, false, true, true, true, false)) :: [])))
+
+(** val w_right : ascii list **)
+
+let w_right =
+  (Ascii (false, true, false, false, true, true, true, false)) :: ((Ascii
+    (true, false, false, true, false, true, true, false)) :: ((Ascii (true,
+    true, true, false, false, true, true, false)) :: ((Ascii (false, false,
+    false, true, false, true, true, false)) :: ((Ascii (false, false, true,
+    false, true, true, true, false)) :: []))))
+
+(** val w_nonassoc : ascii list **)
+
+let w_nonassoc =
+  (Ascii (false, true, true, true, false, true, true, false)) :: ((Ascii
+    (true, true, true, true, false, true, true, false)) :: ((Ascii (false,
+    true, true, true, false, true, true, false)) :: ((Ascii (true, false,
+    false, false, false, true, true, false)) :: ((Ascii (true, true, false,
+    false, true, true, true, false)) :: ((Ascii (true, true, false, false,
+    true, true, true, false)) :: ((Ascii (true, true, true, true, false,
+    true, true, false)) :: ((Ascii (true, true, false, false, false, true,
+    true, false)) :: [])))))))
+
+(** val w_prec : ascii list **)
+
+let w_prec =
+  (Ascii (false, false, false, false, true, true, true, false)) :: ((Ascii
+    (false, true, false, false, true, true, true, false)) :: ((Ascii (true,
+    false, true, false, false, true, true, false)) :: ((Ascii (true, true,
+    false, false, false, true, true, false)) :: [])))
+
+(** val w_precedence : ascii list **)
+
+let w_precedence =
+  (Ascii (false, false, false, false, true, true, true, false)) :: ((Ascii
+    (false, true, false, false, true, true, true, false)) :: ((Ascii (true,
+    false, true, false, false, true, true, false)) :: ((Ascii (true, true,
+    false, false, false, true, true, false)) :: ((Ascii (true, false, true,
+    false, false, true, true, false)) :: ((Ascii (false, false, true, false,
+    false, true, true, false)) :: ((Ascii (true, false, true, false, false,
+    true, true, false)) :: ((Ascii (false, true, true, true, false, true,
+    true, false)) :: ((Ascii (true, true, false, false, false, true, true,
+    false)) :: ((Ascii (true, false, true, false, false, true, true,
+    false)) :: [])))))))))
+
+(** val w_start : ascii list **)
+
+let w_start =
+  (Ascii (true, true, false, false, true, true, true, false)) :: ((Ascii
+    (false, false, true, false, true, true, true, false)) :: ((Ascii (true,
+    false, false, false, false, true, true, false)) :: ((Ascii (false, true,
+    false, false, true, true, true, false)) :: ((Ascii (false, false, true,
+    false, true, true, true, false)) :: []))))
+
+(** val w_accept : ascii list **)
+
+let w_accept =
+  (Ascii (true, false, false, false, false, true, true, false)) :: ((Ascii
+    (true, true, false, false, false, true, true, false)) :: ((Ascii (true,
+    true, false, false, false, true, true, false)) :: ((Ascii (true, false,
+    true, false, false, true, true, false)) :: ((Ascii (false, false, false,
+    false, true, true, true, false)) :: ((Ascii (false, false, true, false,
+    true, true, true, false)) :: [])))))
+
+(** val w_end : ascii list **)
+
+let w_end =
+  (Ascii (true, false, true, false, false, true, true, false)) :: ((Ascii
+    (false, true, true, true, false, true, true, false)) :: ((Ascii (false,
+    false, true, false, false, true, true, false)) :: []))
+
+(** val directive_word : ascii list -> (lkind * ascii list) option **)
+
+let directive_word s =
+  match accept_alpha_word w_type s with
+  | Some r -> Some (LxType, r)
+  | None ->
+    (match accept_alpha_word w_token s with
+     | Some r -> Some (LxToken, r)
+     | None ->
+       (match accept_alpha_word w_union s with
+        | Some r -> Some (LxUnion, r)
+        | None ->
+          (match accept_alpha_word w_left s with
+           | Some r -> Some (LxLeft, r)
+           | None ->
+             (match accept_alpha_word w_right s with
+              | Some r -> Some (LxRight, r)
+              | None ->
+                (match accept_alpha_word w_nonassoc s with
+                 | Some r -> Some (LxNone, r)
+                 | None ->
+                   (match accept_alpha_word w_prec s with
+                    | Some r -> Some (LxPrec, r)
+                    | None ->
+                      (match accept_alpha_word w_precedence s with
+                       | Some r -> Some (LxPrecedence, r)
+                       | None ->
+                         (match accept_alpha_word w_start s with
+                          | Some r -> Some (LxStart, r)
+                          | None -> None))))))))
+
+(** val skip_blank_tab : ascii list -> ascii list **)
+
+let rec skip_blank_tab s = match s with
+| [] -> []
+| c :: s' ->
+  if (||)
+       (eqb0 c (Ascii (false, false, false, false, false, true, false,
+         false))) (eqb0 c tabc)
+  then skip_blank_tab s'
+  else s
+
+(** val union_body : ascii list -> (ascii list * ascii list) option **)
+
+let union_body s =
+  match accept_word ((Ascii (true, true, false, true, true, true, true,
+          false)) :: []) (skip_blank_tab s) with
+  | Some r ->
+    (match braces (S O) r with
+     | Some p -> let (a, r') = p in Some ((removelast a), r')
+     | None -> None)
+  | None -> None
+
+(** val errtok : tok0 **)
+
+let errtok =
+  { t_kind = LxError; t_value = []; t_rest = [] }
+
+(** val lex_root : nat -> ascii list -> ascii list -> tok0 list * tail **)
+
+let rec lex_root fuel carry s =
+  match fuel with
+  | O -> (({ t_kind = LxFuel; t_value = []; t_rest = s } :: []), Closed)
+  | S f ->
+    let emit = fun k v r ->
+      let (ts, tl0) = lex_root f [] r in
+      (({ t_kind = k; t_value = v; t_rest = r } :: ts), tl0)
+    in
+    if has_prefix ((Ascii (true, true, true, true, false, true, false,
+         false)) :: ((Ascii (true, true, true, true, false, true, false,
+         false)) :: [])) s
+    then lex_root f [] (after_line s)
+    else if has_prefix ((Ascii (true, true, true, true, false, true, false,
+              false)) :: ((Ascii (false, true, false, true, false, true,
+              false, false)) :: [])) s
+         then (match block_comment false (skipn (S (S O)) s) with
+               | Some r -> lex_root f [] r
+               | None -> ([], ErrorForEver))
+         else (match s with
+               | [] ->
+                 (({ t_kind = LxEOF; t_value = []; t_rest = [] } :: []),
+                   Closed)
+               | c :: r ->
+                 if eqb0 c (Ascii (true, false, true, false, false, true,
+                      false, false))
+                 then (match r with
+                       | [] ->
+                         (match directive_word r with
+                          | Some p ->
+                            let (k, r') = p in
+                            (match k with
+                             | LxError ->
+                               emit k
+                                 (app carry ((Ascii (true, false, true,
+                                   false, false, true, false, false)) :: []))
+                                 r'
+                             | LxIdentifier ->
+                               emit k
+                                 (app carry ((Ascii (true, false, true,
+                                   false, false, true, false, false)) :: []))
+                                 r'
+                             | LxNumber ->
+                               emit k
+                                 (app carry ((Ascii (true, false, true,
+                                   false, false, true, false, false)) :: []))
+                                 r'
+                             | LxSection ->
+                               emit k
+                                 (app carry ((Ascii (true, false, true,
+                                   false, false, true, false, false)) :: []))
+                                 r'
+                             | LxCodeQuote ->
+                               emit k
+                                 (app carry ((Ascii (true, false, true,
+                                   false, false, true, false, false)) :: []))
+                                 r'
+                             | LxActionQuote ->
+                               emit k
+                                 (app carry ((Ascii (true, false, true,
+                                   false, false, true, false, false)) :: []))
+                                 r'
+                             | LxEOF ->
+                               emit k
+                                 (app carry ((Ascii (true, false, true,
+                                   false, false, true, false, false)) :: []))
+                                 r'
+                             | LxType ->
+                               emit k
+                                 (app carry ((Ascii (true, false, true,
+                                   false, false, true, false, false)) :: []))
+                                 r'
+                             | LxToken ->
+                               emit k
+                                 (app carry ((Ascii (true, false, true,
+                                   false, false, true, false, false)) :: []))
+                                 r'
+                             | LxUnion ->
+                               (match union_body r' with
+                                | Some p0 ->
+                                  let (v, r'') = p0 in emit LxUnion v r''
+                                | None -> ((errtok :: []), Closed))
+                             | LxLeft ->
+                               emit k
+                                 (app carry ((Ascii (true, false, true,
+                                   false, false, true, false, false)) :: []))
+                                 r'
+                             | LxRight ->
+                               emit k
+                                 (app carry ((Ascii (true, false, true,
+                                   false, false, true, false, false)) :: []))
+                                 r'
+                             | LxNone ->
+                               emit k
+                                 (app carry ((Ascii (true, false, true,
+                                   false, false, true, false, false)) :: []))
+                                 r'
+                             | LxPrec ->
+                               emit k
+                                 (app carry ((Ascii (true, false, true,
+                                   false, false, true, false, false)) :: []))
+                                 r'
+                             | LxPrecedence ->
+                               emit k
+                                 (app carry ((Ascii (true, false, true,
+                                   false, false, true, false, false)) :: []))
+                                 r'
+                             | LxStart ->
+                               emit k
+                                 (app carry ((Ascii (true, false, true,
+                                   false, false, true, false, false)) :: []))
+                                 r'
+                             | LxActionSelf ->
+                               emit k
+                                 (app carry ((Ascii (true, false, true,
+                                   false, false, true, false, false)) :: []))
+                                 r'
+                             | LxActionN ->
+                               emit k
+                                 (app carry ((Ascii (true, false, true,
+                                   false, false, true, false, false)) :: []))
+                                 r'
+                             | LxActionAccept ->
+                               emit k
+                                 (app carry ((Ascii (true, false, true,
+                                   false, false, true, false, false)) :: []))
+                                 r'
+                             | LxActionEnd ->
+                               emit k
+                                 (app carry ((Ascii (true, false, true,
+                                   false, false, true, false, false)) :: []))
+                                 r'
+                             | LxOr ->
+                               emit k
+                                 (app carry ((Ascii (true, false, true,
+                                   false, false, true, false, false)) :: []))
+                                 r'
+                             | LxDefine ->
+                               emit k
+                                 (app carry ((Ascii (true, false, true,
+                                   false, false, true, false, false)) :: []))
+                                 r'
+                             | LxEnd ->
+                               emit k
+                                 (app carry ((Ascii (true, false, true,
+                                   false, false, true, false, false)) :: []))
+                                 r'
+                             | LxLAngle ->
+                               emit k
+                                 (app carry ((Ascii (true, false, true,
+                                   false, false, true, false, false)) :: []))
+                                 r'
+                             | LxRAngle ->
+                               emit k
+                                 (app carry ((Ascii (true, false, true,
+                                   false, false, true, false, false)) :: []))
+                                 r'
+                             | LxChar ->
+                               emit k
+                                 (app carry ((Ascii (true, false, true,
+                                   false, false, true, false, false)) :: []))
+                                 r'
+                             | LxString ->
+                               emit k
+                                 (app carry ((Ascii (true, false, true,
+                                   false, false, true, false, false)) :: []))
+                                 r'
+                             | LxFuel ->
+                               emit k
+                                 (app carry ((Ascii (true, false, true,
+                                   false, false, true, false, false)) :: []))
+                                 r')
+                          | None ->
+                            lex_root f
+                              (app carry ((Ascii (true, false, true, false,
+                                false, true, false, false)) :: [])) r)
+                       | a :: r' ->
+                         let Ascii (b, b0, b1, b2, b3, b4, b5, b6) = a in
+                         if b
+                         then if b0
+                              then if b1
+                                   then (match directive_word r with
+                                         | Some p ->
+                                           let (k, r'0) = p in
+                                           (match k with
+                                            | LxError ->
+                                              emit k
+                                                (app carry ((Ascii (true,
+                                                  false, true, false, false,
+                                                  true, false, false)) :: []))
+                                                r'0
+                                            | LxIdentifier ->
+                                              emit k
+                                                (app carry ((Ascii (true,
+                                                  false, true, false, false,
+                                                  true, false, false)) :: []))
+                                                r'0
+                                            | LxNumber ->
+                                              emit k
+                                                (app carry ((Ascii (true,
+                                                  false, true, false, false,
+                                                  true, false, false)) :: []))
+                                                r'0
+                                            | LxSection ->
+                                              emit k
+                                                (app carry ((Ascii (true,
+                                                  false, true, false, false,
+                                                  true, false, false)) :: []))
+                                                r'0
+                                            | LxCodeQuote ->
+                                              emit k
+                                                (app carry ((Ascii (true,
+                                                  false, true, false, false,
+                                                  true, false, false)) :: []))
+                                                r'0
+                                            | LxActionQuote ->
+                                              emit k
+                                                (app carry ((Ascii (true,
+                                                  false, true, false, false,
+                                                  true, false, false)) :: []))
+                                                r'0
+                                            | LxEOF ->
+                                              emit k
+                                                (app carry ((Ascii (true,
+                                                  false, true, false, false,
+                                                  true, false, false)) :: []))
+                                                r'0
+                                            | LxType ->
+                                              emit k
+                                                (app carry ((Ascii (true,
+                                                  false, true, false, false,
+                                                  true, false, false)) :: []))
+                                                r'0
+                                            | LxToken ->
+                                              emit k
+                                                (app carry ((Ascii (true,
+                                                  false, true, false, false,
+                                                  true, false, false)) :: []))
+                                                r'0
+                                            | LxUnion ->
+                                              (match union_body r'0 with
+                                               | Some p0 ->
+                                                 let (v, r'') = p0 in
+                                                 emit LxUnion v r''
+                                               | None ->
+                                                 ((errtok :: []), Closed))
+                                            | LxLeft ->
+                                              emit k
+                                                (app carry ((Ascii (true,
+                                                  false, true, false, false,
+                                                  true, false, false)) :: []))
+                                                r'0
+                                            | LxRight ->
+                                              emit k
+                                                (app carry ((Ascii (true,
+                                                  false, true, false, false,
+                                                  true, false, false)) :: []))
+                                                r'0
+                                            | LxNone ->
+                                              emit k
+                                                (app carry ((Ascii (true,
+                                                  false, true, false, false,
+                                                  true, false, false)) :: []))
+                                                r'0
+                                            | LxPrec ->
+                                              emit k
+                                                (app carry ((Ascii (true,
+                                                  false, true, false, false,
+                                                  true, false, false)) :: []))
+                                                r'0
+                                            | LxPrecedence ->
+                                              emit k
+                                                (app carry ((Ascii (true,
+                                                  false, true, false, false,
+                                                  true, false, false)) :: []))
+                                                r'0
+                                            | LxStart ->
+                                              emit k
+                                                (app carry ((Ascii (true,
+                                                  false, true, false, false,
+                                                  true, false, false)) :: []))
+                                                r'0
+                                            | LxActionSelf ->
+                                              emit k
+                                                (app carry ((Ascii (true,
+                                                  false, true, false, false,
+                                                  true, false, false)) :: []))
+                                                r'0
+                                            | LxActionN ->
+                                              emit k
+                                                (app carry ((Ascii (true,
+                                                  false, true, false, false,
+                                                  true, false, false)) :: []))
+                                                r'0
+                                            | LxActionAccept ->
+                                              emit k
+                                                (app carry ((Ascii (true,
+                                                  false, true, false, false,
+                                                  true, false, false)) :: []))
+                                                r'0
+                                            | LxActionEnd ->
+                                              emit k
+                                                (app carry ((Ascii (true,
+                                                  false, true, false, false,
+                                                  true, false, false)) :: []))
+                                                r'0
+                                            | LxOr ->
+                                              emit k
+                                                (app carry ((Ascii (true,
+                                                  false, true, false, false,
+                                                  true, false, false)) :: []))
+                                                r'0
+                                            | LxDefine ->
+                                              emit k
+                                                (app carry ((Ascii (true,
+                                                  false, true, false, false,
+                                                  true, false, false)) :: []))
+                                                r'0
+                                            | LxEnd ->
+                                              emit k
+                                                (app carry ((Ascii (true,
+                                                  false, true, false, false,
+                                                  true, false, false)) :: []))
+                                                r'0
+                                            | LxLAngle ->
+                                              emit k
+                                                (app carry ((Ascii (true,
+                                                  false, true, false, false,
+                                                  true, false, false)) :: []))
+                                                r'0
+                                            | LxRAngle ->
+                                              emit k
+                                                (app carry ((Ascii (true,
+                                                  false, true, false, false,
+                                                  true, false, false)) :: []))
+                                                r'0
+                                            | LxChar ->
+                                              emit k
+                                                (app carry ((Ascii (true,
+                                                  false, true, false, false,
+                                                  true, false, false)) :: []))
+                                                r'0
+                                            | LxString ->
+                                              emit k
+                                                (app carry ((Ascii (true,
+                                                  false, true, false, false,
+                                                  true, false, false)) :: []))
+                                                r'0
+                                            | LxFuel ->
+                                              emit k
+                                                (app carry ((Ascii (true,
+                                                  false, true, false, false,
+                                                  true, false, false)) :: []))
+                                                r'0)
+                                         | None ->
+                                           lex_root f
+                                             (app carry ((Ascii (true, false,
+                                               true, false, false, true,
+                                               false, false)) :: [])) r)
+                                   else if b2
+                                        then if b3
+                                             then if b4
+                                                  then if b5
+                                                       then if b6
+                                                            then (match 
+                                                                  directive_word
+                                                                    r with
+                                                                  | Some p ->
+                                                                    let (
+                                                                    k, r'0) =
+                                                                    p
+                                                                    in
+                                                                    (
+                                                                    match k with
+                                                                    | LxError ->
+                                                                    emit k
+                                                                    (app
+                                                                    carry
+                                                                    ((Ascii
+                                                                    (true,
+                                                                    false,
+                                                                    true,
+                                                                    false,
+                                                                    false,
+                                                                    true,
+                                                                    false,
+                                                                    false)) :: []))
+                                                                    r'0
+                                                                    | LxIdentifier ->
+                                                                    emit k
+                                                                    (app
+                                                                    carry
+                                                                    ((Ascii
+                                                                    (true,
+                                                                    false,
+                                                                    true,
+                                                                    false,
+                                                                    false,
+                                                                    true,
+                                                                    false,
+                                                                    false)) :: []))
+                                                                    r'0
+                                                                    | LxNumber ->
+                                                                    emit k
+                                                                    (app
+                                                                    carry
+                                                                    ((Ascii
+                                                                    (true,
+                                                                    false,
+                                                                    true,
+                                                                    false,
+                                                                    false,
+                                                                    true,
+                                                                    false,
+                                                                    false)) :: []))
+                                                                    r'0
+                                                                    | LxSection ->
+                                                                    emit k
+                                                                    (app
+                                                                    carry
+                                                                    ((Ascii
+                                                                    (true,
+                                                                    false,
+                                                                    true,
+                                                                    false,
+                                                                    false,
+                                                                    true,
+                                                                    false,
+                                                                    false)) :: []))
+                                                                    r'0
+                                                                    | LxCodeQuote ->
+                                                                    emit k
+                                                                    (app
+                                                                    carry
+                                                                    ((Ascii
+                                                                    (true,
+                                                                    false,
+                                                                    true,
+                                                                    false,
+                                                                    false,
+                                                                    true,
+                                                                    false,
+                                                                    false)) :: []))
+                                                                    r'0
+                                                                    | LxActionQuote ->
+                                                                    emit k
+                                                                    (app
+                                                                    carry
+                                                                    ((Ascii
+                                                                    (true,
+                                                                    false,
+                                                                    true,
+                                                                    false,
+                                                                    false,
+                                                                    true,
+                                                                    false,
+                                                                    false)) :: []))
+                                                                    r'0
+                                                                    | LxEOF ->
+                                                                    emit k
+                                                                    (app
+                                                                    carry
+                                                                    ((Ascii
+                                                                    (true,
+                                                                    false,
+                                                                    true,
+                                                                    false,
+                                                                    false,
+                                                                    true,
+                                                                    false,
+                                                                    false)) :: []))
+                                                                    r'0
+                                                                    | LxType ->
+                                                                    emit k
+                                                                    (app
+                                                                    carry
+                                                                    ((Ascii
+                                                                    (true,
+                                                                    false,
+                                                                    true,
+                                                                    false,
+                                                                    false,
+                                                                    true,
+                                                                    false,
+                                                                    false)) :: []))
+                                                                    r'0
+                                                                    | LxToken ->
+                                                                    emit k
+                                                                    (app
+                                                                    carry
+                                                                    ((Ascii
+                                                                    (true,
+                                                                    false,
+                                                                    true,
+                                                                    false,
+                                                                    false,
+                                                                    true,
+                                                                    false,
+                                                                    false)) :: []))
+                                                                    r'0
+                                                                    | LxUnion ->
+                                                                    (match 
+                                                                    union_body
+                                                                    r'0 with
+                                                                    | Some p0 ->
+                                                                    let (
+                                                                    v, r'') =
+                                                                    p0
+                                                                    in
+                                                                    emit
+                                                                    LxUnion v
+                                                                    r''
+                                                                    | None ->
+                                                                    ((errtok :: []),
+                                                                    Closed))
+                                                                    | LxLeft ->
+                                                                    emit k
+                                                                    (app
+                                                                    carry
+                                                                    ((Ascii
+                                                                    (true,
+                                                                    false,
+                                                                    true,
+                                                                    false,
+                                                                    false,
+                                                                    true,
+                                                                    false,
+                                                                    false)) :: []))
+                                                                    r'0
+                                                                    | LxRight ->
+                                                                    emit k
+                                                                    (app
+                                                                    carry
+                                                                    ((Ascii
+                                                                    (true,
+                                                                    false,
+                                                                    true,
+                                                                    false,
+                                                                    false,
+                                                                    true,
+                                                                    false,
+                                                                    false)) :: []))
+                                                                    r'0
+                                                                    | LxNone ->
+                                                                    emit k
+                                                                    (app
+                                                                    carry
+                                                                    ((Ascii
+                                                                    (true,
+                                                                    false,
+                                                                    true,
+                                                                    false,
+                                                                    false,
+                                                                    true,
+                                                                    false,
+                                                                    false)) :: []))
+                                                                    r'0
+                                                                    | LxPrec ->
+                                                                    emit k
+                                                                    (app
+                                                                    carry
+                                                                    ((Ascii
+                                                                    (true,
+                                                                    false,
+                                                                    true,
+                                                                    false,
+                                                                    false,
+                                                                    true,
+                                                                    false,
+                                                                    false)) :: []))
+                                                                    r'0
+                                                                    | LxPrecedence ->
+                                                                    emit k
+                                                                    (app
+                                                                    carry
+                                                                    ((Ascii
+                                                                    (true,
+                                                                    false,
+                                                                    true,
+                                                                    false,
+                                                                    false,
+                                                                    true,
+                                                                    false,
+                                                                    false)) :: []))
+                                                                    r'0
+                                                                    | LxStart ->
+                                                                    emit k
+                                                                    (app
+                                                                    carry
+                                                                    ((Ascii
+                                                                    (true,
+                                                                    false,
+                                                                    true,
+                                                                    false,
+                                                                    false,
+                                                                    true,
+                                                                    false,
+                                                                    false)) :: []))
+                                                                    r'0
+                                                                    | LxActionSelf ->
+                                                                    emit k
+                                                                    (app
+                                                                    carry
+                                                                    ((Ascii
+                                                                    (true,
+                                                                    false,
+                                                                    true,
+                                                                    false,
+                                                                    false,
+                                                                    true,
+                                                                    false,
+                                                                    false)) :: []))
+                                                                    r'0
+                                                                    | LxActionN ->
+                                                                    emit k
+                                                                    (app
+                                                                    carry
+                                                                    ((Ascii
+                                                                    (true,
+                                                                    false,
+                                                                    true,
+                                                                    false,
+                                                                    false,
+                                                                    true,
+                                                                    false,
+                                                                    false)) :: []))
+                                                                    r'0
+                                                                    | LxActionAccept ->
+                                                                    emit k
+                                                                    (app
+                                                                    carry
+                                                                    ((Ascii
+                                                                    (true,
+                                                                    false,
+                                                                    true,
+                                                                    false,
+                                                                    false,
+                                                                    true,
+                                                                    false,
+                                                                    false)) :: []))
+                                                                    r'0
+                                                                    | LxActionEnd ->
+                                                                    emit k
+                                                                    (app
+                                                                    carry
+                                                                    ((Ascii
+                                                                    (true,
+                                                                    false,
+                                                                    true,
+                                                                    false,
+                                                                    false,
+                                                                    true,
+                                                                    false,
+                                                                    false)) :: []))
+                                                                    r'0
+                                                                    | LxOr ->
+                                                                    emit k
+                                                                    (app
+                                                                    carry
+                                                                    ((Ascii
+                                                                    (true,
+                                                                    false,
+                                                                    true,
+                                                                    false,
+                                                                    false,
+                                                                    true,
+                                                                    false,
+                                                                    false)) :: []))
+                                                                    r'0
+                                                                    | LxDefine ->
+                                                                    emit k
+                                                                    (app
+                                                                    carry
+                                                                    ((Ascii
+                                                                    (true,
+                                                                    false,
+                                                                    true,
+                                                                    false,
+                                                                    false,
+                                                                    true,
+                                                                    false,
+                                                                    false)) :: []))
+                                                                    r'0
+                                                                    | LxEnd ->
+                                                                    emit k
+                                                                    (app
+                                                                    carry
+                                                                    ((Ascii
+                                                                    (true,
+                                                                    false,
+                                                                    true,
+                                                                    false,
+                                                                    false,
+                                                                    true,
+                                                                    false,
+                                                                    false)) :: []))
+                                                                    r'0
+                                                                    | LxLAngle ->
+                                                                    emit k
+                                                                    (app
+                                                                    carry
+                                                                    ((Ascii
+                                                                    (true,
+                                                                    false,
+                                                                    true,
+                                                                    false,
+                                                                    false,
+                                                                    true,
+                                                                    false,
+                                                                    false)) :: []))
+                                                                    r'0
+                                                                    | LxRAngle ->
+                                                                    emit k
+                                                                    (app
+                                                                    carry
+                                                                    ((Ascii
+                                                                    (true,
+                                                                    false,
+                                                                    true,
+                                                                    false,
+                                                                    false,
+                                                                    true,
+                                                                    false,
+                                                                    false)) :: []))
+                                                                    r'0
+                                                                    | LxChar ->
+                                                                    emit k
+                                                                    (app
+                                                                    carry
+                                                                    ((Ascii
+                                                                    (true,
+                                                                    false,
+                                                                    true,
+                                                                    false,
+                                                                    false,
+                                                                    true,
+                                                                    false,
+                                                                    false)) :: []))
+                                                                    r'0
+                                                                    | LxString ->
+                                                                    emit k
+                                                                    (app
+                                                                    carry
+                                                                    ((Ascii
+                                                                    (true,
+                                                                    false,
+                                                                    true,
+                                                                    false,
+                                                                    false,
+                                                                    true,
+                                                                    false,
+                                                                    false)) :: []))
+                                                                    r'0
+                                                                    | LxFuel ->
+                                                                    emit k
+                                                                    (app
+                                                                    carry
+                                                                    ((Ascii
+                                                                    (true,
+                                                                    false,
+                                                                    true,
+                                                                    false,
+                                                                    false,
+                                                                    true,
+                                                                    false,
+                                                                    false)) :: []))
+                                                                    r'0)
+                                                                  | None ->
+                                                                    lex_root
+                                                                    f
+                                                                    (app
+                                                                    carry
+                                                                    ((Ascii
+                                                                    (true,
+                                                                    false,
+                                                                    true,
+                                                                    false,
+                                                                    false,
+                                                                    true,
+                                                                    false,
+                                                                    false)) :: []))
+                                                                    r)
+                                                            else (match 
+                                                                  code_end r' with
+                                                                  | Some p ->
+                                                                    let (
+                                                                    v, r'') =
+                                                                    p
+                                                                    in
+                                                                    emit
+                                                                    LxCodeQuote
+                                                                    v r''
+                                                                  | None ->
+                                                                    ((errtok :: []),
+                                                                    Closed))
+                                                       else (match directive_word
+                                                                    r with
+                                                             | Some p ->
+                                                               let (k, r'0) =
+                                                                 p
+                                                               in
+                                                               (match k with
+                                                                | LxError ->
+                                                                  emit k
+                                                                    (app
+                                                                    carry
+                                                                    ((Ascii
+                                                                    (true,
+                                                                    false,
+                                                                    true,
+                                                                    false,
+                                                                    false,
+                                                                    true,
+                                                                    false,
+                                                                    false)) :: []))
+                                                                    r'0
+                                                                | LxIdentifier ->
+                                                                  emit k
+                                                                    (app
+                                                                    carry
+                                                                    ((Ascii
+                                                                    (true,
+                                                                    false,
+                                                                    true,
+                                                                    false,
+                                                                    false,
+                                                                    true,
+                                                                    false,
+                                                                    false)) :: []))
+                                                                    r'0
+                                                                | LxNumber ->
+                                                                  emit k
+                                                                    (app
+                                                                    carry
+                                                                    ((Ascii
+                                                                    (true,
+                                                                    false,
+                                                                    true,
+                                                                    false,
+                                                                    false,
+                                                                    true,
+                                                                    false,
+                                                                    false)) :: []))
+                                                                    r'0
+                                                                | LxSection ->
+                                                                  emit k
+                                                                    (app
+                                                                    carry
+                                                                    ((Ascii
+                                                                    (true,
+                                                                    false,
+                                                                    true,
+                                                                    false,
+                                                                    false,
+                                                                    true,
+                                                                    false,
+                                                                    false)) :: []))
+                                                                    r'0
+                                                                | LxCodeQuote ->
+                                                                  emit k
+                                                                    (app
+                                                                    carry
+                                                                    ((Ascii
+                                                                    (true,
+                                                                    false,
+                                                                    true,
+                                                                    false,
+                                                                    false,
+                                                                    true,
+                                                                    false,
+                                                                    false)) :: []))
+                                                                    r'0
+                                                                | LxActionQuote ->
+                                                                  emit k
+                                                                    (app
+                                                                    carry
+                                                                    ((Ascii
+                                                                    (true,
+                                                                    false,
+                                                                    true,
+                                                                    false,
+                                                                    false,
+                                                                    true,
+                                                                    false,
+                                                                    false)) :: []))
+                                                                    r'0
+                                                                | LxEOF ->
+                                                                  emit k
+                                                                    (app
+                                                                    carry
+                                                                    ((Ascii
+                                                                    (true,
+                                                                    false,
+                                                                    true,
+                                                                    false,
+                                                                    false,
+                                                                    true,
+                                                                    false,
+                                                                    false)) :: []))
+                                                                    r'0
+                                                                | LxType ->
+                                                                  emit k
+                                                                    (app
+                                                                    carry
+                                                                    ((Ascii
+                                                                    (true,
+                                                                    false,
+                                                                    true,
+                                                                    false,
+                                                                    false,
+                                                                    true,
+                                                                    false,
+                                                                    false)) :: []))
+                                                                    r'0
+                                                                | LxToken ->
+                                                                  emit k
+                                                                    (app
+                                                                    carry
+                                                                    ((Ascii
+                                                                    (true,
+                                                                    false,
+                                                                    true,
+                                                                    false,
+                                                                    false,
+                                                                    true,
+                                                                    false,
+                                                                    false)) :: []))
+                                                                    r'0
+                                                                | LxUnion ->
+                                                                  (match 
+                                                                   union_body
+                                                                    r'0 with
+                                                                   | Some p0 ->
+                                                                    let (
+                                                                    v, r'') =
+                                                                    p0
+                                                                    in
+                                                                    emit
+                                                                    LxUnion v
+                                                                    r''
+                                                                   | None ->
+                                                                    ((errtok :: []),
+                                                                    Closed))
+                                                                | LxLeft ->
+                                                                  emit k
+                                                                    (app
+                                                                    carry
+                                                                    ((Ascii
+                                                                    (true,
+                                                                    false,
+                                                                    true,
+                                                                    false,
+                                                                    false,
+                                                                    true,
+                                                                    false,
+                                                                    false)) :: []))
+                                                                    r'0
+                                                                | LxRight ->
+                                                                  emit k
+                                                                    (app
+                                                                    carry
+                                                                    ((Ascii
+                                                                    (true,
+                                                                    false,
+                                                                    true,
+                                                                    false,
+                                                                    false,
+                                                                    true,
+                                                                    false,
+                                                                    false)) :: []))
+                                                                    r'0
+                                                                | LxNone ->
+                                                                  emit k
+                                                                    (app
+                                                                    carry
+                                                                    ((Ascii
+                                                                    (true,
+                                                                    false,
+                                                                    true,
+                                                                    false,
+                                                                    false,
+                                                                    true,
+                                                                    false,
+                                                                    false)) :: []))
+                                                                    r'0
+                                                                | LxPrec ->
+                                                                  emit k
+                                                                    (app
+                                                                    carry
+                                                                    ((Ascii
+                                                                    (true,
+                                                                    false,
+                                                                    true,
+                                                                    false,
+                                                                    false,
+                                                                    true,
+                                                                    false,
+                                                                    false)) :: []))
+                                                                    r'0
+                                                                | LxPrecedence ->
+                                                                  emit k
+                                                                    (app
+                                                                    carry
+                                                                    ((Ascii
+                                                                    (true,
+                                                                    false,
+                                                                    true,
+                                                                    false,
+                                                                    false,
+                                                                    true,
+                                                                    false,
+                                                                    false)) :: []))
+                                                                    r'0
+                                                                | LxStart ->
+                                                                  emit k
+                                                                    (app
+                                                                    carry
+                                                                    ((Ascii
+                                                                    (true,
+                                                                    false,
+                                                                    true,
+                                                                    false,
+                                                                    false,
+                                                                    true,
+                                                                    false,
+                                                                    false)) :: []))
+                                                                    r'0
+                                                                | LxActionSelf ->
+                                                                  emit k
+                                                                    (app
+                                                                    carry
+                                                                    ((Ascii
+                                                                    (true,
+                                                                    false,
+                                                                    true,
+                                                                    false,
+                                                                    false,
+                                                                    true,
+                                                                    false,
+                                                                    false)) :: []))
+                                                                    r'0
+                                                                | LxActionN ->
+                                                                  emit k
+                                                                    (app
+                                                                    carry
+                                                                    ((Ascii
+                                                                    (true,
+                                                                    false,
+                                                                    true,
+                                                                    false,
+                                                                    false,
+                                                                    true,
+                                                                    false,
+                                                                    false)) :: []))
+                                                                    r'0
+                                                                | LxActionAccept ->
+                                                                  emit k
+                                                                    (app
+                                                                    carry
+                                                                    ((Ascii
+                                                                    (true,
+                                                                    false,
+                                                                    true,
+                                                                    false,
+                                                                    false,
+                                                                    true,
+                                                                    false,
+                                                                    false)) :: []))
+                                                                    r'0
+                                                                | LxActionEnd ->
+                                                                  emit k
+                                                                    (app
+                                                                    carry
+                                                                    ((Ascii
+                                                                    (true,
+                                                                    false,
+                                                                    true,
+                                                                    false,
+                                                                    false,
+                                                                    true,
+                                                                    false,
+                                                                    false)) :: []))
+                                                                    r'0
+                                                                | LxOr ->
+                                                                  emit k
+                                                                    (app
+                                                                    carry
+                                                                    ((Ascii
+                                                                    (true,
+                                                                    false,
+                                                                    true,
+                                                                    false,
+                                                                    false,
+                                                                    true,
+                                                                    false,
+                                                                    false)) :: []))
+                                                                    r'0
+                                                                | LxDefine ->
+                                                                  emit k
+                                                                    (app
+                                                                    carry
+                                                                    ((Ascii
+                                                                    (true,
+                                                                    false,
+                                                                    true,
+                                                                    false,
+                                                                    false,
+                                                                    true,
+                                                                    false,
+                                                                    false)) :: []))
+                                                                    r'0
+                                                                | LxEnd ->
+                                                                  emit k
+                                                                    (app
+                                                                    carry
+                                                                    ((Ascii
+                                                                    (true,
+                                                                    false,
+                                                                    true,
+                                                                    false,
+                                                                    false,
+                                                                    true,
+                                                                    false,
+                                                                    false)) :: []))
+                                                                    r'0
+                                                                | LxLAngle ->
+                                                                  emit k
+                                                                    (app
+                                                                    carry
+                                                                    ((Ascii
+                                                                    (true,
+                                                                    false,
+                                                                    true,
+                                                                    false,
+                                                                    false,
+                                                                    true,
+                                                                    false,
+                                                                    false)) :: []))
+                                                                    r'0
+                                                                | LxRAngle ->
+                                                                  emit k
+                                                                    (app
+                                                                    carry
+                                                                    ((Ascii
+                                                                    (true,
+                                                                    false,
+                                                                    true,
+                                                                    false,
+                                                                    false,
+                                                                    true,
+                                                                    false,
+                                                                    false)) :: []))
+                                                                    r'0
+                                                                | LxChar ->
+                                                                  emit k
+                                                                    (app
+                                                                    carry
+                                                                    ((Ascii
+                                                                    (true,
+                                                                    false,
+                                                                    true,
+                                                                    false,
+                                                                    false,
+                                                                    true,
+                                                                    false,
+                                                                    false)) :: []))
+                                                                    r'0
+                                                                | LxString ->
+                                                                  emit k
+                                                                    (app
+                                                                    carry
+                                                                    ((Ascii
+                                                                    (true,
+                                                                    false,
+                                                                    true,
+                                                                    false,
+                                                                    false,
+                                                                    true,
+                                                                    false,
+                                                                    false)) :: []))
+                                                                    r'0
+                                                                | LxFuel ->
+                                                                  emit k
+                                                                    (app
+                                                                    carry
+                                                                    ((Ascii
+                                                                    (true,
+                                                                    false,
+                                                                    true,
+                                                                    false,
+                                                                    false,
+                                                                    true,
+                                                                    false,
+                                                                    false)) :: []))
+                                                                    r'0)
+                                                             | None ->
+                                                               lex_root f
+                                                                 (app carry
+                                                                   ((Ascii
+                                                                   (true,
+                                                                   false,
+                                                                   true,
+                                                                   false,
+                                                                   false,
+                                                                   true,
+                                                                   false,
+                                                                   false)) :: []))
+                                                                 r)
+                                                  else (match directive_word r with
+                                                        | Some p ->
+                                                          let (k, r'0) = p in
+                                                          (match k with
+                                                           | LxError ->
+                                                             emit k
+                                                               (app carry
+                                                                 ((Ascii
+                                                                 (true,
+                                                                 false, true,
+                                                                 false,
+                                                                 false, true,
+                                                                 false,
+                                                                 false)) :: []))
+                                                               r'0
+                                                           | LxIdentifier ->
+                                                             emit k
+                                                               (app carry
+                                                                 ((Ascii
+                                                                 (true,
+                                                                 false, true,
+                                                                 false,
+                                                                 false, true,
+                                                                 false,
+                                                                 false)) :: []))
+                                                               r'0
+                                                           | LxNumber ->
+                                                             emit k
+                                                               (app carry
+                                                                 ((Ascii
+                                                                 (true,
+                                                                 false, true,
+                                                                 false,
+                                                                 false, true,
+                                                                 false,
+                                                                 false)) :: []))
+                                                               r'0
+                                                           | LxSection ->
+                                                             emit k
+                                                               (app carry
+                                                                 ((Ascii
+                                                                 (true,
+                                                                 false, true,
+                                                                 false,
+                                                                 false, true,
+                                                                 false,
+                                                                 false)) :: []))
+                                                               r'0
+                                                           | LxCodeQuote ->
+                                                             emit k
+                                                               (app carry
+                                                                 ((Ascii
+                                                                 (true,
+                                                                 false, true,
+                                                                 false,
+                                                                 false, true,
+                                                                 false,
+                                                                 false)) :: []))
+                                                               r'0
+                                                           | LxActionQuote ->
+                                                             emit k
+                                                               (app carry
+                                                                 ((Ascii
+                                                                 (true,
+                                                                 false, true,
+                                                                 false,
+                                                                 false, true,
+                                                                 false,
+                                                                 false)) :: []))
+                                                               r'0
+                                                           | LxEOF ->
+                                                             emit k
+                                                               (app carry
+                                                                 ((Ascii
+                                                                 (true,
+                                                                 false, true,
+                                                                 false,
+                                                                 false, true,
+                                                                 false,
+                                                                 false)) :: []))
+                                                               r'0
+                                                           | LxType ->
+                                                             emit k
+                                                               (app carry
+                                                                 ((Ascii
+                                                                 (true,
+                                                                 false, true,
+                                                                 false,
+                                                                 false, true,
+                                                                 false,
+                                                                 false)) :: []))
+                                                               r'0
+                                                           | LxToken ->
+                                                             emit k
+                                                               (app carry
+                                                                 ((Ascii
+                                                                 (true,
+                                                                 false, true,
+                                                                 false,
+                                                                 false, true,
+                                                                 false,
+                                                                 false)) :: []))
+                                                               r'0
+                                                           | LxUnion ->
+                                                             (match union_body
+                                                                    r'0 with
+                                                              | Some p0 ->
+                                                                let (
+                                                                  v, r'') = p0
+                                                                in
+                                                                emit LxUnion
+                                                                  v r''
+                                                              | None ->
+                                                                ((errtok :: []),
+                                                                  Closed))
+                                                           | LxLeft ->
+                                                             emit k
+                                                               (app carry
+                                                                 ((Ascii
+                                                                 (true,
+                                                                 false, true,
+                                                                 false,
+                                                                 false, true,
+                                                                 false,
+                                                                 false)) :: []))
+                                                               r'0
+                                                           | LxRight ->
+                                                             emit k
+                                                               (app carry
+                                                                 ((Ascii
+                                                                 (true,
+                                                                 false, true,
+                                                                 false,
+                                                                 false, true,
+                                                                 false,
+                                                                 false)) :: []))
+                                                               r'0
+                                                           | LxNone ->
+                                                             emit k
+                                                               (app carry
+                                                                 ((Ascii
+                                                                 (true,
+                                                                 false, true,
+                                                                 false,
+                                                                 false, true,
+                                                                 false,
+                                                                 false)) :: []))
+                                                               r'0
+                                                           | LxPrec ->
+                                                             emit k
+                                                               (app carry
+                                                                 ((Ascii
+                                                                 (true,
+                                                                 false, true,
+                                                                 false,
+                                                                 false, true,
+                                                                 false,
+                                                                 false)) :: []))
+                                                               r'0
+                                                           | LxPrecedence ->
+                                                             emit k
+                                                               (app carry
+                                                                 ((Ascii
+                                                                 (true,
+                                                                 false, true,
+                                                                 false,
+                                                                 false, true,
+                                                                 false,
+                                                                 false)) :: []))
+                                                               r'0
+                                                           | LxStart ->
+                                                             emit k
+                                                               (app carry
+                                                                 ((Ascii
+                                                                 (true,
+                                                                 false, true,
+                                                                 false,
+                                                                 false, true,
+                                                                 false,
+                                                                 false)) :: []))
+                                                               r'0
+                                                           | LxActionSelf ->
+                                                             emit k
+                                                               (app carry
+                                                                 ((Ascii
+                                                                 (true,
+                                                                 false, true,
+                                                                 false,
+                                                                 false, true,
+                                                                 false,
+                                                                 false)) :: []))
+                                                               r'0
+                                                           | LxActionN ->
+                                                             emit k
+                                                               (app carry
+                                                                 ((Ascii
+                                                                 (true,
+                                                                 false, true,
+                                                                 false,
+                                                                 false, true,
+                                                                 false,
+                                                                 false)) :: []))
+                                                               r'0
+                                                           | LxActionAccept ->
+                                                             emit k
+                                                               (app carry
+                                                                 ((Ascii
+                                                                 (true,
+                                                                 false, true,
+                                                                 false,
+                                                                 false, true,
+                                                                 false,
+                                                                 false)) :: []))
+                                                               r'0
+                                                           | LxActionEnd ->
+                                                             emit k
+                                                               (app carry
+                                                                 ((Ascii
+                                                                 (true,
+                                                                 false, true,
+                                                                 false,
+                                                                 false, true,
+                                                                 false,
+                                                                 false)) :: []))
+                                                               r'0
+                                                           | LxOr ->
+                                                             emit k
+                                                               (app carry
+                                                                 ((Ascii
+                                                                 (true,
+                                                                 false, true,
+                                                                 false,
+                                                                 false, true,
+                                                                 false,
+                                                                 false)) :: []))
+                                                               r'0
+                                                           | LxDefine ->
+                                                             emit k
+                                                               (app carry
+                                                                 ((Ascii
+                                                                 (true,
+                                                                 false, true,
+                                                                 false,
+                                                                 false, true,
+                                                                 false,
+                                                                 false)) :: []))
+                                                               r'0
+                                                           | LxEnd ->
+                                                             emit k
+                                                               (app carry
+                                                                 ((Ascii
+                                                                 (true,
+                                                                 false, true,
+                                                                 false,
+                                                                 false, true,
+                                                                 false,
+                                                                 false)) :: []))
+                                                               r'0
+                                                           | LxLAngle ->
+                                                             emit k
+                                                               (app carry
+                                                                 ((Ascii
+                                                                 (true,
+                                                                 false, true,
+                                                                 false,
+                                                                 false, true,
+                                                                 false,
+                                                                 false)) :: []))
+                                                               r'0
+                                                           | LxRAngle ->
+                                                             emit k
+                                                               (app carry
+                                                                 ((Ascii
+                                                                 (true,
+                                                                 false, true,
+                                                                 false,
+                                                                 false, true,
+                                                                 false,
+                                                                 false)) :: []))
+                                                               r'0
+                                                           | LxChar ->
+                                                             emit k
+                                                               (app carry
+                                                                 ((Ascii
+                                                                 (true,
+                                                                 false, true,
+                                                                 false,
+                                                                 false, true,
+                                                                 false,
+                                                                 false)) :: []))
+                                                               r'0
+                                                           | LxString ->
+                                                             emit k
+                                                               (app carry
+                                                                 ((Ascii
+                                                                 (true,
+                                                                 false, true,
+                                                                 false,
+                                                                 false, true,
+                                                                 false,
+                                                                 false)) :: []))
+                                                               r'0
+                                                           | LxFuel ->
+                                                             emit k
+                                                               (app carry
+                                                                 ((Ascii
+                                                                 (true,
+                                                                 false, true,
+                                                                 false,
+                                                                 false, true,
+                                                                 false,
+                                                                 false)) :: []))
+                                                               r'0)
+                                                        | None ->
+                                                          lex_root f
+                                                            (app carry
+                                                              ((Ascii (true,
+                                                              false, true,
+                                                              false, false,
+                                                              true, false,
+                                                              false)) :: []))
+                                                            r)
+                                             else (match directive_word r with
+                                                   | Some p ->
+                                                     let (k, r'0) = p in
+                                                     (match k with
+                                                      | LxError ->
+                                                        emit k
+                                                          (app carry ((Ascii
+                                                            (true, false,
+                                                            true, false,
+                                                            false, true,
+                                                            false,
+                                                            false)) :: []))
+                                                          r'0
+                                                      | LxIdentifier ->
+                                                        emit k
+                                                          (app carry ((Ascii
+                                                            (true, false,
+                                                            true, false,
+                                                            false, true,
+                                                            false,
+                                                            false)) :: []))
+                                                          r'0
+                                                      | LxNumber ->
+                                                        emit k
+                                                          (app carry ((Ascii
+                                                            (true, false,
+                                                            true, false,
+                                                            false, true,
+                                                            false,
+                                                            false)) :: []))
+                                                          r'0
+                                                      | LxSection ->
+                                                        emit k
+                                                          (app carry ((Ascii
+                                                            (true, false,
+                                                            true, false,
+                                                            false, true,
+                                                            false,
+                                                            false)) :: []))
+                                                          r'0
+                                                      | LxCodeQuote ->
+                                                        emit k
+                                                          (app carry ((Ascii
+                                                            (true, false,
+                                                            true, false,
+                                                            false, true,
+                                                            false,
+                                                            false)) :: []))
+                                                          r'0
+                                                      | LxActionQuote ->
+                                                        emit k
+                                                          (app carry ((Ascii
+                                                            (true, false,
+                                                            true, false,
+                                                            false, true,
+                                                            false,
+                                                            false)) :: []))
+                                                          r'0
+                                                      | LxEOF ->
+                                                        emit k
+                                                          (app carry ((Ascii
+                                                            (true, false,
+                                                            true, false,
+                                                            false, true,
+                                                            false,
+                                                            false)) :: []))
+                                                          r'0
+                                                      | LxType ->
+                                                        emit k
+                                                          (app carry ((Ascii
+                                                            (true, false,
+                                                            true, false,
+                                                            false, true,
+                                                            false,
+                                                            false)) :: []))
+                                                          r'0
+                                                      | LxToken ->
+                                                        emit k
+                                                          (app carry ((Ascii
+                                                            (true, false,
+                                                            true, false,
+                                                            false, true,
+                                                            false,
+                                                            false)) :: []))
+                                                          r'0
+                                                      | LxUnion ->
+                                                        (match union_body r'0 with
+                                                         | Some p0 ->
+                                                           let (v, r'') = p0
+                                                           in
+                                                           emit LxUnion v r''
+                                                         | None ->
+                                                           ((errtok :: []),
+                                                             Closed))
+                                                      | LxLeft ->
+                                                        emit k
+                                                          (app carry ((Ascii
+                                                            (true, false,
+                                                            true, false,
+                                                            false, true,
+                                                            false,
+                                                            false)) :: []))
+                                                          r'0
+                                                      | LxRight ->
+                                                        emit k
+                                                          (app carry ((Ascii
+                                                            (true, false,
+                                                            true, false,
+                                                            false, true,
+                                                            false,
+                                                            false)) :: []))
+                                                          r'0
+                                                      | LxNone ->
+                                                        emit k
+                                                          (app carry ((Ascii
+                                                            (true, false,
+                                                            true, false,
+                                                            false, true,
+                                                            false,
+                                                            false)) :: []))
+                                                          r'0
+                                                      | LxPrec ->
+                                                        emit k
+                                                          (app carry ((Ascii
+                                                            (true, false,
+                                                            true, false,
+                                                            false, true,
+                                                            false,
+                                                            false)) :: []))
+                                                          r'0
+                                                      | LxPrecedence ->
+                                                        emit k
+                                                          (app carry ((Ascii
+                                                            (true, false,
+                                                            true, false,
+                                                            false, true,
+                                                            false,
+                                                            false)) :: []))
+                                                          r'0
+                                                      | LxStart ->
+                                                        emit k
+                                                          (app carry ((Ascii
+                                                            (true, false,
+                                                            true, false,
+                                                            false, true,
+                                                            false,
+                                                            false)) :: []))
+                                                          r'0
+                                                      | LxActionSelf ->
+                                                        emit k
+                                                          (app carry ((Ascii
+                                                            (true, false,
+                                                            true, false,
+                                                            false, true,
+                                                            false,
+                                                            false)) :: []))
+                                                          r'0
+                                                      | LxActionN ->
+                                                        emit k
+                                                          (app carry ((Ascii
+                                                            (true, false,
+                                                            true, false,
+                                                            false, true,
+                                                            false,
+                                                            false)) :: []))
+                                                          r'0
+                                                      | LxActionAccept ->
+                                                        emit k
+                                                          (app carry ((Ascii
+                                                            (true, false,
+                                                            true, false,
+                                                            false, true,
+                                                            false,
+                                                            false)) :: []))
+                                                          r'0
+                                                      | LxActionEnd ->
+                                                        emit k
+                                                          (app carry ((Ascii
+                                                            (true, false,
+                                                            true, false,
+                                                            false, true,
+                                                            false,
+                                                            false)) :: []))
+                                                          r'0
+                                                      | LxOr ->
+                                                        emit k
+                                                          (app carry ((Ascii
+                                                            (true, false,
+                                                            true, false,
+                                                            false, true,
+                                                            false,
+                                                            false)) :: []))
+                                                          r'0
+                                                      | LxDefine ->
+                                                        emit k
+                                                          (app carry ((Ascii
+                                                            (true, false,
+                                                            true, false,
+                                                            false, true,
+                                                            false,
+                                                            false)) :: []))
+                                                          r'0
+                                                      | LxEnd ->
+                                                        emit k
+                                                          (app carry ((Ascii
+                                                            (true, false,
+                                                            true, false,
+                                                            false, true,
+                                                            false,
+                                                            false)) :: []))
+                                                          r'0
+                                                      | LxLAngle ->
+                                                        emit k
+                                                          (app carry ((Ascii
+                                                            (true, false,
+                                                            true, false,
+                                                            false, true,
+                                                            false,
+                                                            false)) :: []))
+                                                          r'0
+                                                      | LxRAngle ->
+                                                        emit k
+                                                          (app carry ((Ascii
+                                                            (true, false,
+                                                            true, false,
+                                                            false, true,
+                                                            false,
+                                                            false)) :: []))
+                                                          r'0
+                                                      | LxChar ->
+                                                        emit k
+                                                          (app carry ((Ascii
+                                                            (true, false,
+                                                            true, false,
+                                                            false, true,
+                                                            false,
+                                                            false)) :: []))
+                                                          r'0
+                                                      | LxString ->
+                                                        emit k
+                                                          (app carry ((Ascii
+                                                            (true, false,
+                                                            true, false,
+                                                            false, true,
+                                                            false,
+                                                            false)) :: []))
+                                                          r'0
+                                                      | LxFuel ->
+                                                        emit k
+                                                          (app carry ((Ascii
+                                                            (true, false,
+                                                            true, false,
+                                                            false, true,
+                                                            false,
+                                                            false)) :: []))
+                                                          r'0)
+                                                   | None ->
+                                                     lex_root f
+                                                       (app carry ((Ascii
+                                                         (true, false, true,
+                                                         false, false, true,
+                                                         false,
+                                                         false)) :: [])) r)
+                                        else (match directive_word r with
+                                              | Some p ->
+                                                let (k, r'0) = p in
+                                                (match k with
+                                                 | LxError ->
+                                                   emit k
+                                                     (app carry ((Ascii
+                                                       (true, false, true,
+                                                       false, false, true,
+                                                       false, false)) :: []))
+                                                     r'0
+                                                 | LxIdentifier ->
+                                                   emit k
+                                                     (app carry ((Ascii
+                                                       (true, false, true,
+                                                       false, false, true,
+                                                       false, false)) :: []))
+                                                     r'0
+                                                 | LxNumber ->
+                                                   emit k
+                                                     (app carry ((Ascii
+                                                       (true, false, true,
+                                                       false, false, true,
+                                                       false, false)) :: []))
+                                                     r'0
+                                                 | LxSection ->
+                                                   emit k
+                                                     (app carry ((Ascii
+                                                       (true, false, true,
+                                                       false, false, true,
+                                                       false, false)) :: []))
+                                                     r'0
+                                                 | LxCodeQuote ->
+                                                   emit k
+                                                     (app carry ((Ascii
+                                                       (true, false, true,
+                                                       false, false, true,
+                                                       false, false)) :: []))
+                                                     r'0
+                                                 | LxActionQuote ->
+                                                   emit k
+                                                     (app carry ((Ascii
+                                                       (true, false, true,
+                                                       false, false, true,
+                                                       false, false)) :: []))
+                                                     r'0
+                                                 | LxEOF ->
+                                                   emit k
+                                                     (app carry ((Ascii
+                                                       (true, false, true,
+                                                       false, false, true,
+                                                       false, false)) :: []))
+                                                     r'0
+                                                 | LxType ->
+                                                   emit k
+                                                     (app carry ((Ascii
+                                                       (true, false, true,
+                                                       false, false, true,
+                                                       false, false)) :: []))
+                                                     r'0
+                                                 | LxToken ->
+                                                   emit k
+                                                     (app carry ((Ascii
+                                                       (true, false, true,
+                                                       false, false, true,
+                                                       false, false)) :: []))
+                                                     r'0
+                                                 | LxUnion ->
+                                                   (match union_body r'0 with
+                                                    | Some p0 ->
+                                                      let (v, r'') = p0 in
+                                                      emit LxUnion v r''
+                                                    | None ->
+                                                      ((errtok :: []), Closed))
+                                                 | LxLeft ->
+                                                   emit k
+                                                     (app carry ((Ascii
+                                                       (true, false, true,
+                                                       false, false, true,
+                                                       false, false)) :: []))
+                                                     r'0
+                                                 | LxRight ->
+                                                   emit k
+                                                     (app carry ((Ascii
+                                                       (true, false, true,
+                                                       false, false, true,
+                                                       false, false)) :: []))
+                                                     r'0
+                                                 | LxNone ->
+                                                   emit k
+                                                     (app carry ((Ascii
+                                                       (true, false, true,
+                                                       false, false, true,
+                                                       false, false)) :: []))
+                                                     r'0
+                                                 | LxPrec ->
+                                                   emit k
+                                                     (app carry ((Ascii
+                                                       (true, false, true,
+                                                       false, false, true,
+                                                       false, false)) :: []))
+                                                     r'0
+                                                 | LxPrecedence ->
+                                                   emit k
+                                                     (app carry ((Ascii
+                                                       (true, false, true,
+                                                       false, false, true,
+                                                       false, false)) :: []))
+                                                     r'0
+                                                 | LxStart ->
+                                                   emit k
+                                                     (app carry ((Ascii
+                                                       (true, false, true,
+                                                       false, false, true,
+                                                       false, false)) :: []))
+                                                     r'0
+                                                 | LxActionSelf ->
+                                                   emit k
+                                                     (app carry ((Ascii
+                                                       (true, false, true,
+                                                       false, false, true,
+                                                       false, false)) :: []))
+                                                     r'0
+                                                 | LxActionN ->
+                                                   emit k
+                                                     (app carry ((Ascii
+                                                       (true, false, true,
+                                                       false, false, true,
+                                                       false, false)) :: []))
+                                                     r'0
+                                                 | LxActionAccept ->
+                                                   emit k
+                                                     (app carry ((Ascii
+                                                       (true, false, true,
+                                                       false, false, true,
+                                                       false, false)) :: []))
+                                                     r'0
+                                                 | LxActionEnd ->
+                                                   emit k
+                                                     (app carry ((Ascii
+                                                       (true, false, true,
+                                                       false, false, true,
+                                                       false, false)) :: []))
+                                                     r'0
+                                                 | LxOr ->
+                                                   emit k
+                                                     (app carry ((Ascii
+                                                       (true, false, true,
+                                                       false, false, true,
+                                                       false, false)) :: []))
+                                                     r'0
+                                                 | LxDefine ->
+                                                   emit k
+                                                     (app carry ((Ascii
+                                                       (true, false, true,
+                                                       false, false, true,
+                                                       false, false)) :: []))
+                                                     r'0
+                                                 | LxEnd ->
+                                                   emit k
+                                                     (app carry ((Ascii
+                                                       (true, false, true,
+                                                       false, false, true,
+                                                       false, false)) :: []))
+                                                     r'0
+                                                 | LxLAngle ->
+                                                   emit k
+                                                     (app carry ((Ascii
+                                                       (true, false, true,
+                                                       false, false, true,
+                                                       false, false)) :: []))
+                                                     r'0
+                                                 | LxRAngle ->
+                                                   emit k
+                                                     (app carry ((Ascii
+                                                       (true, false, true,
+                                                       false, false, true,
+                                                       false, false)) :: []))
+                                                     r'0
+                                                 | LxChar ->
+                                                   emit k
+                                                     (app carry ((Ascii
+                                                       (true, false, true,
+                                                       false, false, true,
+                                                       false, false)) :: []))
+                                                     r'0
+                                                 | LxString ->
+                                                   emit k
+                                                     (app carry ((Ascii
+                                                       (true, false, true,
+                                                       false, false, true,
+                                                       false, false)) :: []))
+                                                     r'0
+                                                 | LxFuel ->
+                                                   emit k
+                                                     (app carry ((Ascii
+                                                       (true, false, true,
+                                                       false, false, true,
+                                                       false, false)) :: []))
+                                                     r'0)
+                                              | None ->
+                                                lex_root f
+                                                  (app carry ((Ascii (true,
+                                                    false, true, false,
+                                                    false, true, false,
+                                                    false)) :: [])) r)
+                              else if b1
+                                   then if b2
+                                        then (match directive_word r with
+                                              | Some p ->
+                                                let (k, r'0) = p in
+                                                (match k with
+                                                 | LxError ->
+                                                   emit k
+                                                     (app carry ((Ascii
+                                                       (true, false, true,
+                                                       false, false, true,
+                                                       false, false)) :: []))
+                                                     r'0
+                                                 | LxIdentifier ->
+                                                   emit k
+                                                     (app carry ((Ascii
+                                                       (true, false, true,
+                                                       false, false, true,
+                                                       false, false)) :: []))
+                                                     r'0
+                                                 | LxNumber ->
+                                                   emit k
+                                                     (app carry ((Ascii
+                                                       (true, false, true,
+                                                       false, false, true,
+                                                       false, false)) :: []))
+                                                     r'0
+                                                 | LxSection ->
+                                                   emit k
+                                                     (app carry ((Ascii
+                                                       (true, false, true,
+                                                       false, false, true,
+                                                       false, false)) :: []))
+                                                     r'0
+                                                 | LxCodeQuote ->
+                                                   emit k
+                                                     (app carry ((Ascii
+                                                       (true, false, true,
+                                                       false, false, true,
+                                                       false, false)) :: []))
+                                                     r'0
+                                                 | LxActionQuote ->
+                                                   emit k
+                                                     (app carry ((Ascii
+                                                       (true, false, true,
+                                                       false, false, true,
+                                                       false, false)) :: []))
+                                                     r'0
+                                                 | LxEOF ->
+                                                   emit k
+                                                     (app carry ((Ascii
+                                                       (true, false, true,
+                                                       false, false, true,
+                                                       false, false)) :: []))
+                                                     r'0
+                                                 | LxType ->
+                                                   emit k
+                                                     (app carry ((Ascii
+                                                       (true, false, true,
+                                                       false, false, true,
+                                                       false, false)) :: []))
+                                                     r'0
+                                                 | LxToken ->
+                                                   emit k
+                                                     (app carry ((Ascii
+                                                       (true, false, true,
+                                                       false, false, true,
+                                                       false, false)) :: []))
+                                                     r'0
+                                                 | LxUnion ->
+                                                   (match union_body r'0 with
+                                                    | Some p0 ->
+                                                      let (v, r'') = p0 in
+                                                      emit LxUnion v r''
+                                                    | None ->
+                                                      ((errtok :: []), Closed))
+                                                 | LxLeft ->
+                                                   emit k
+                                                     (app carry ((Ascii
+                                                       (true, false, true,
+                                                       false, false, true,
+                                                       false, false)) :: []))
+                                                     r'0
+                                                 | LxRight ->
+                                                   emit k
+                                                     (app carry ((Ascii
+                                                       (true, false, true,
+                                                       false, false, true,
+                                                       false, false)) :: []))
+                                                     r'0
+                                                 | LxNone ->
+                                                   emit k
+                                                     (app carry ((Ascii
+                                                       (true, false, true,
+                                                       false, false, true,
+                                                       false, false)) :: []))
+                                                     r'0
+                                                 | LxPrec ->
+                                                   emit k
+                                                     (app carry ((Ascii
+                                                       (true, false, true,
+                                                       false, false, true,
+                                                       false, false)) :: []))
+                                                     r'0
+                                                 | LxPrecedence ->
+                                                   emit k
+                                                     (app carry ((Ascii
+                                                       (true, false, true,
+                                                       false, false, true,
+                                                       false, false)) :: []))
+                                                     r'0
+                                                 | LxStart ->
+                                                   emit k
+                                                     (app carry ((Ascii
+                                                       (true, false, true,
+                                                       false, false, true,
+                                                       false, false)) :: []))
+                                                     r'0
+                                                 | LxActionSelf ->
+                                                   emit k
+                                                     (app carry ((Ascii
+                                                       (true, false, true,
+                                                       false, false, true,
+                                                       false, false)) :: []))
+                                                     r'0
+                                                 | LxActionN ->
+                                                   emit k
+                                                     (app carry ((Ascii
+                                                       (true, false, true,
+                                                       false, false, true,
+                                                       false, false)) :: []))
+                                                     r'0
+                                                 | LxActionAccept ->
+                                                   emit k
+                                                     (app carry ((Ascii
+                                                       (true, false, true,
+                                                       false, false, true,
+                                                       false, false)) :: []))
+                                                     r'0
+                                                 | LxActionEnd ->
+                                                   emit k
+                                                     (app carry ((Ascii
+                                                       (true, false, true,
+                                                       false, false, true,
+                                                       false, false)) :: []))
+                                                     r'0
+                                                 | LxOr ->
+                                                   emit k
+                                                     (app carry ((Ascii
+                                                       (true, false, true,
+                                                       false, false, true,
+                                                       false, false)) :: []))
+                                                     r'0
+                                                 | LxDefine ->
+                                                   emit k
+                                                     (app carry ((Ascii
+                                                       (true, false, true,
+                                                       false, false, true,
+                                                       false, false)) :: []))
+                                                     r'0
+                                                 | LxEnd ->
+                                                   emit k
+                                                     (app carry ((Ascii
+                                                       (true, false, true,
+                                                       false, false, true,
+                                                       false, false)) :: []))
+                                                     r'0
+                                                 | LxLAngle ->
+                                                   emit k
+                                                     (app carry ((Ascii
+                                                       (true, false, true,
+                                                       false, false, true,
+                                                       false, false)) :: []))
+                                                     r'0
+                                                 | LxRAngle ->
+                                                   emit k
+                                                     (app carry ((Ascii
+                                                       (true, false, true,
+                                                       false, false, true,
+                                                       false, false)) :: []))
+                                                     r'0
+                                                 | LxChar ->
+                                                   emit k
+                                                     (app carry ((Ascii
+                                                       (true, false, true,
+                                                       false, false, true,
+                                                       false, false)) :: []))
+                                                     r'0
+                                                 | LxString ->
+                                                   emit k
+                                                     (app carry ((Ascii
+                                                       (true, false, true,
+                                                       false, false, true,
+                                                       false, false)) :: []))
+                                                     r'0
+                                                 | LxFuel ->
+                                                   emit k
+                                                     (app carry ((Ascii
+                                                       (true, false, true,
+                                                       false, false, true,
+                                                       false, false)) :: []))
+                                                     r'0)
+                                              | None ->
+                                                lex_root f
+                                                  (app carry ((Ascii (true,
+                                                    false, true, false,
+                                                    false, true, false,
+                                                    false)) :: [])) r)
+                                        else if b3
+                                             then (match directive_word r with
+                                                   | Some p ->
+                                                     let (k, r'0) = p in
+                                                     (match k with
+                                                      | LxError ->
+                                                        emit k
+                                                          (app carry ((Ascii
+                                                            (true, false,
+                                                            true, false,
+                                                            false, true,
+                                                            false,
+                                                            false)) :: []))
+                                                          r'0
+                                                      | LxIdentifier ->
+                                                        emit k
+                                                          (app carry ((Ascii
+                                                            (true, false,
+                                                            true, false,
+                                                            false, true,
+                                                            false,
+                                                            false)) :: []))
+                                                          r'0
+                                                      | LxNumber ->
+                                                        emit k
+                                                          (app carry ((Ascii
+                                                            (true, false,
+                                                            true, false,
+                                                            false, true,
+                                                            false,
+                                                            false)) :: []))
+                                                          r'0
+                                                      | LxSection ->
+                                                        emit k
+                                                          (app carry ((Ascii
+                                                            (true, false,
+                                                            true, false,
+                                                            false, true,
+                                                            false,
+                                                            false)) :: []))
+                                                          r'0
+                                                      | LxCodeQuote ->
+                                                        emit k
+                                                          (app carry ((Ascii
+                                                            (true, false,
+                                                            true, false,
+                                                            false, true,
+                                                            false,
+                                                            false)) :: []))
+                                                          r'0
+                                                      | LxActionQuote ->
+                                                        emit k
+                                                          (app carry ((Ascii
+                                                            (true, false,
+                                                            true, false,
+                                                            false, true,
+                                                            false,
+                                                            false)) :: []))
+                                                          r'0
+                                                      | LxEOF ->
+                                                        emit k
+                                                          (app carry ((Ascii
+                                                            (true, false,
+                                                            true, false,
+                                                            false, true,
+                                                            false,
+                                                            false)) :: []))
+                                                          r'0
+                                                      | LxType ->
+                                                        emit k
+                                                          (app carry ((Ascii
+                                                            (true, false,
+                                                            true, false,
+                                                            false, true,
+                                                            false,
+                                                            false)) :: []))
+                                                          r'0
+                                                      | LxToken ->
+                                                        emit k
+                                                          (app carry ((Ascii
+                                                            (true, false,
+                                                            true, false,
+                                                            false, true,
+                                                            false,
+                                                            false)) :: []))
+                                                          r'0
+                                                      | LxUnion ->
+                                                        (match union_body r'0 with
+                                                         | Some p0 ->
+                                                           let (v, r'') = p0
+                                                           in
+                                                           emit LxUnion v r''
+                                                         | None ->
+                                                           ((errtok :: []),
+                                                             Closed))
+                                                      | LxLeft ->
+                                                        emit k
+                                                          (app carry ((Ascii
+                                                            (true, false,
+                                                            true, false,
+                                                            false, true,
+                                                            false,
+                                                            false)) :: []))
+                                                          r'0
+                                                      | LxRight ->
+                                                        emit k
+                                                          (app carry ((Ascii
+                                                            (true, false,
+                                                            true, false,
+                                                            false, true,
+                                                            false,
+                                                            false)) :: []))
+                                                          r'0
+                                                      | LxNone ->
+                                                        emit k
+                                                          (app carry ((Ascii
+                                                            (true, false,
+                                                            true, false,
+                                                            false, true,
+                                                            false,
+                                                            false)) :: []))
+                                                          r'0
+                                                      | LxPrec ->
+                                                        emit k
+                                                          (app carry ((Ascii
+                                                            (true, false,
+                                                            true, false,
+                                                            false, true,
+                                                            false,
+                                                            false)) :: []))
+                                                          r'0
+                                                      | LxPrecedence ->
+                                                        emit k
+                                                          (app carry ((Ascii
+                                                            (true, false,
+                                                            true, false,
+                                                            false, true,
+                                                            false,
+                                                            false)) :: []))
+                                                          r'0
+                                                      | LxStart ->
+                                                        emit k
+                                                          (app carry ((Ascii
+                                                            (true, false,
+                                                            true, false,
+                                                            false, true,
+                                                            false,
+                                                            false)) :: []))
+                                                          r'0
+                                                      | LxActionSelf ->
+                                                        emit k
+                                                          (app carry ((Ascii
+                                                            (true, false,
+                                                            true, false,
+                                                            false, true,
+                                                            false,
+                                                            false)) :: []))
+                                                          r'0
+                                                      | LxActionN ->
+                                                        emit k
+                                                          (app carry ((Ascii
+                                                            (true, false,
+                                                            true, false,
+                                                            false, true,
+                                                            false,
+                                                            false)) :: []))
+                                                          r'0
+                                                      | LxActionAccept ->
+                                                        emit k
+                                                          (app carry ((Ascii
+                                                            (true, false,
+                                                            true, false,
+                                                            false, true,
+                                                            false,
+                                                            false)) :: []))
+                                                          r'0
+                                                      | LxActionEnd ->
+                                                        emit k
+                                                          (app carry ((Ascii
+                                                            (true, false,
+                                                            true, false,
+                                                            false, true,
+                                                            false,
+                                                            false)) :: []))
+                                                          r'0
+                                                      | LxOr ->
+                                                        emit k
+                                                          (app carry ((Ascii
+                                                            (true, false,
+                                                            true, false,
+                                                            false, true,
+                                                            false,
+                                                            false)) :: []))
+                                                          r'0
+                                                      | LxDefine ->
+                                                        emit k
+                                                          (app carry ((Ascii
+                                                            (true, false,
+                                                            true, false,
+                                                            false, true,
+                                                            false,
+                                                            false)) :: []))
+                                                          r'0
+                                                      | LxEnd ->
+                                                        emit k
+                                                          (app carry ((Ascii
+                                                            (true, false,
+                                                            true, false,
+                                                            false, true,
+                                                            false,
+                                                            false)) :: []))
+                                                          r'0
+                                                      | LxLAngle ->
+                                                        emit k
+                                                          (app carry ((Ascii
+                                                            (true, false,
+                                                            true, false,
+                                                            false, true,
+                                                            false,
+                                                            false)) :: []))
+                                                          r'0
+                                                      | LxRAngle ->
+                                                        emit k
+                                                          (app carry ((Ascii
+                                                            (true, false,
+                                                            true, false,
+                                                            false, true,
+                                                            false,
+                                                            false)) :: []))
+                                                          r'0
+                                                      | LxChar ->
+                                                        emit k
+                                                          (app carry ((Ascii
+                                                            (true, false,
+                                                            true, false,
+                                                            false, true,
+                                                            false,
+                                                            false)) :: []))
+                                                          r'0
+                                                      | LxString ->
+                                                        emit k
+                                                          (app carry ((Ascii
+                                                            (true, false,
+                                                            true, false,
+                                                            false, true,
+                                                            false,
+                                                            false)) :: []))
+                                                          r'0
+                                                      | LxFuel ->
+                                                        emit k
+                                                          (app carry ((Ascii
+                                                            (true, false,
+                                                            true, false,
+                                                            false, true,
+                                                            false,
+                                                            false)) :: []))
+                                                          r'0)
+                                                   | None ->
+                                                     lex_root f
+                                                       (app carry ((Ascii
+                                                         (true, false, true,
+                                                         false, false, true,
+                                                         false,
+                                                         false)) :: [])) r)
+                                             else if b4
+                                                  then if b5
+                                                       then (match directive_word
+                                                                    r with
+                                                             | Some p ->
+                                                               let (k, r'0) =
+                                                                 p
+                                                               in
+                                                               (match k with
+                                                                | LxError ->
+                                                                  emit k
+                                                                    (app
+                                                                    carry
+                                                                    ((Ascii
+                                                                    (true,
+                                                                    false,
+                                                                    true,
+                                                                    false,
+                                                                    false,
+                                                                    true,
+                                                                    false,
+                                                                    false)) :: []))
+                                                                    r'0
+                                                                | LxIdentifier ->
+                                                                  emit k
+                                                                    (app
+                                                                    carry
+                                                                    ((Ascii
+                                                                    (true,
+                                                                    false,
+                                                                    true,
+                                                                    false,
+                                                                    false,
+                                                                    true,
+                                                                    false,
+                                                                    false)) :: []))
+                                                                    r'0
+                                                                | LxNumber ->
+                                                                  emit k
+                                                                    (app
+                                                                    carry
+                                                                    ((Ascii
+                                                                    (true,
+                                                                    false,
+                                                                    true,
+                                                                    false,
+                                                                    false,
+                                                                    true,
+                                                                    false,
+                                                                    false)) :: []))
+                                                                    r'0
+                                                                | LxSection ->
+                                                                  emit k
+                                                                    (app
+                                                                    carry
+                                                                    ((Ascii
+                                                                    (true,
+                                                                    false,
+                                                                    true,
+                                                                    false,
+                                                                    false,
+                                                                    true,
+                                                                    false,
+                                                                    false)) :: []))
+                                                                    r'0
+                                                                | LxCodeQuote ->
+                                                                  emit k
+                                                                    (app
+                                                                    carry
+                                                                    ((Ascii
+                                                                    (true,
+                                                                    false,
+                                                                    true,
+                                                                    false,
+                                                                    false,
+                                                                    true,
+                                                                    false,
+                                                                    false)) :: []))
+                                                                    r'0
+                                                                | LxActionQuote ->
+                                                                  emit k
+                                                                    (app
+                                                                    carry
+                                                                    ((Ascii
+                                                                    (true,
+                                                                    false,
+                                                                    true,
+                                                                    false,
+                                                                    false,
+                                                                    true,
+                                                                    false,
+                                                                    false)) :: []))
+                                                                    r'0
+                                                                | LxEOF ->
+                                                                  emit k
+                                                                    (app
+                                                                    carry
+                                                                    ((Ascii
+                                                                    (true,
+                                                                    false,
+                                                                    true,
+                                                                    false,
+                                                                    false,
+                                                                    true,
+                                                                    false,
+                                                                    false)) :: []))
+                                                                    r'0
+                                                                | LxType ->
+                                                                  emit k
+                                                                    (app
+                                                                    carry
+                                                                    ((Ascii
+                                                                    (true,
+                                                                    false,
+                                                                    true,
+                                                                    false,
+                                                                    false,
+                                                                    true,
+                                                                    false,
+                                                                    false)) :: []))
+                                                                    r'0
+                                                                | LxToken ->
+                                                                  emit k
+                                                                    (app
+                                                                    carry
+                                                                    ((Ascii
+                                                                    (true,
+                                                                    false,
+                                                                    true,
+                                                                    false,
+                                                                    false,
+                                                                    true,
+                                                                    false,
+                                                                    false)) :: []))
+                                                                    r'0
+                                                                | LxUnion ->
+                                                                  (match 
+                                                                   union_body
+                                                                    r'0 with
+                                                                   | Some p0 ->
+                                                                    let (
+                                                                    v, r'') =
+                                                                    p0
+                                                                    in
+                                                                    emit
+                                                                    LxUnion v
+                                                                    r''
+                                                                   | None ->
+                                                                    ((errtok :: []),
+                                                                    Closed))
+                                                                | LxLeft ->
+                                                                  emit k
+                                                                    (app
+                                                                    carry
+                                                                    ((Ascii
+                                                                    (true,
+                                                                    false,
+                                                                    true,
+                                                                    false,
+                                                                    false,
+                                                                    true,
+                                                                    false,
+                                                                    false)) :: []))
+                                                                    r'0
+                                                                | LxRight ->
+                                                                  emit k
+                                                                    (app
+                                                                    carry
+                                                                    ((Ascii
+                                                                    (true,
+                                                                    false,
+                                                                    true,
+                                                                    false,
+                                                                    false,
+                                                                    true,
+                                                                    false,
+                                                                    false)) :: []))
+                                                                    r'0
+                                                                | LxNone ->
+                                                                  emit k
+                                                                    (app
+                                                                    carry
+                                                                    ((Ascii
+                                                                    (true,
+                                                                    false,
+                                                                    true,
+                                                                    false,
+                                                                    false,
+                                                                    true,
+                                                                    false,
+                                                                    false)) :: []))
+                                                                    r'0
+                                                                | LxPrec ->
+                                                                  emit k
+                                                                    (app
+                                                                    carry
+                                                                    ((Ascii
+                                                                    (true,
+                                                                    false,
+                                                                    true,
+                                                                    false,
+                                                                    false,
+                                                                    true,
+                                                                    false,
+                                                                    false)) :: []))
+                                                                    r'0
+                                                                | LxPrecedence ->
+                                                                  emit k
+                                                                    (app
+                                                                    carry
+                                                                    ((Ascii
+                                                                    (true,
+                                                                    false,
+                                                                    true,
+                                                                    false,
+                                                                    false,
+                                                                    true,
+                                                                    false,
+                                                                    false)) :: []))
+                                                                    r'0
+                                                                | LxStart ->
+                                                                  emit k
+                                                                    (app
+                                                                    carry
+                                                                    ((Ascii
+                                                                    (true,
+                                                                    false,
+                                                                    true,
+                                                                    false,
+                                                                    false,
+                                                                    true,
+                                                                    false,
+                                                                    false)) :: []))
+                                                                    r'0
+                                                                | LxActionSelf ->
+                                                                  emit k
+                                                                    (app
+                                                                    carry
+                                                                    ((Ascii
+                                                                    (true,
+                                                                    false,
+                                                                    true,
+                                                                    false,
+                                                                    false,
+                                                                    true,
+                                                                    false,
+                                                                    false)) :: []))
+                                                                    r'0
+                                                                | LxActionN ->
+                                                                  emit k
+                                                                    (app
+                                                                    carry
+                                                                    ((Ascii
+                                                                    (true,
+                                                                    false,
+                                                                    true,
+                                                                    false,
+                                                                    false,
+                                                                    true,
+                                                                    false,
+                                                                    false)) :: []))
+                                                                    r'0
+                                                                | LxActionAccept ->
+                                                                  emit k
+                                                                    (app
+                                                                    carry
+                                                                    ((Ascii
+                                                                    (true,
+                                                                    false,
+                                                                    true,
+                                                                    false,
+                                                                    false,
+                                                                    true,
+                                                                    false,
+                                                                    false)) :: []))
+                                                                    r'0
+                                                                | LxActionEnd ->
+                                                                  emit k
+                                                                    (app
+                                                                    carry
+                                                                    ((Ascii
+                                                                    (true,
+                                                                    false,
+                                                                    true,
+                                                                    false,
+                                                                    false,
+                                                                    true,
+                                                                    false,
+                                                                    false)) :: []))
+                                                                    r'0
+                                                                | LxOr ->
+                                                                  emit k
+                                                                    (app
+                                                                    carry
+                                                                    ((Ascii
+                                                                    (true,
+                                                                    false,
+                                                                    true,
+                                                                    false,
+                                                                    false,
+                                                                    true,
+                                                                    false,
+                                                                    false)) :: []))
+                                                                    r'0
+                                                                | LxDefine ->
+                                                                  emit k
+                                                                    (app
+                                                                    carry
+                                                                    ((Ascii
+                                                                    (true,
+                                                                    false,
+                                                                    true,
+                                                                    false,
+                                                                    false,
+                                                                    true,
+                                                                    false,
+                                                                    false)) :: []))
+                                                                    r'0
+                                                                | LxEnd ->
+                                                                  emit k
+                                                                    (app
+                                                                    carry
+                                                                    ((Ascii
+                                                                    (true,
+                                                                    false,
+                                                                    true,
+                                                                    false,
+                                                                    false,
+                                                                    true,
+                                                                    false,
+                                                                    false)) :: []))
+                                                                    r'0
+                                                                | LxLAngle ->
+                                                                  emit k
+                                                                    (app
+                                                                    carry
+                                                                    ((Ascii
+                                                                    (true,
+                                                                    false,
+                                                                    true,
+                                                                    false,
+                                                                    false,
+                                                                    true,
+                                                                    false,
+                                                                    false)) :: []))
+                                                                    r'0
+                                                                | LxRAngle ->
+                                                                  emit k
+                                                                    (app
+                                                                    carry
+                                                                    ((Ascii
+                                                                    (true,
+                                                                    false,
+                                                                    true,
+                                                                    false,
+                                                                    false,
+                                                                    true,
+                                                                    false,
+                                                                    false)) :: []))
+                                                                    r'0
+                                                                | LxChar ->
+                                                                  emit k
+                                                                    (app
+                                                                    carry
+                                                                    ((Ascii
+                                                                    (true,
+                                                                    false,
+                                                                    true,
+                                                                    false,
+                                                                    false,
+                                                                    true,
+                                                                    false,
+                                                                    false)) :: []))
+                                                                    r'0
+                                                                | LxString ->
+                                                                  emit k
+                                                                    (app
+                                                                    carry
+                                                                    ((Ascii
+                                                                    (true,
+                                                                    false,
+                                                                    true,
+                                                                    false,
+                                                                    false,
+                                                                    true,
+                                                                    false,
+                                                                    false)) :: []))
+                                                                    r'0
+                                                                | LxFuel ->
+                                                                  emit k
+                                                                    (app
+                                                                    carry
+                                                                    ((Ascii
+                                                                    (true,
+                                                                    false,
+                                                                    true,
+                                                                    false,
+                                                                    false,
+                                                                    true,
+                                                                    false,
+                                                                    false)) :: []))
+                                                                    r'0)
+                                                             | None ->
+                                                               lex_root f
+                                                                 (app carry
+                                                                   ((Ascii
+                                                                   (true,
+                                                                   false,
+                                                                   true,
+                                                                   false,
+                                                                   false,
+                                                                   true,
+                                                                   false,
+                                                                   false)) :: []))
+                                                                 r)
+                                                       else if b6
+                                                            then (match 
+                                                                  directive_word
+                                                                    r with
+                                                                  | Some p ->
+                                                                    let (
+                                                                    k, r'0) =
+                                                                    p
+                                                                    in
+                                                                    (
+                                                                    match k with
+                                                                    | LxError ->
+                                                                    emit k
+                                                                    (app
+                                                                    carry
+                                                                    ((Ascii
+                                                                    (true,
+                                                                    false,
+                                                                    true,
+                                                                    false,
+                                                                    false,
+                                                                    true,
+                                                                    false,
+                                                                    false)) :: []))
+                                                                    r'0
+                                                                    | LxIdentifier ->
+                                                                    emit k
+                                                                    (app
+                                                                    carry
+                                                                    ((Ascii
+                                                                    (true,
+                                                                    false,
+                                                                    true,
+                                                                    false,
+                                                                    false,
+                                                                    true,
+                                                                    false,
+                                                                    false)) :: []))
+                                                                    r'0
+                                                                    | LxNumber ->
+                                                                    emit k
+                                                                    (app
+                                                                    carry
+                                                                    ((Ascii
+                                                                    (true,
+                                                                    false,
+                                                                    true,
+                                                                    false,
+                                                                    false,
+                                                                    true,
+                                                                    false,
+                                                                    false)) :: []))
+                                                                    r'0
+                                                                    | LxSection ->
+                                                                    emit k
+                                                                    (app
+                                                                    carry
+                                                                    ((Ascii
+                                                                    (true,
+                                                                    false,
+                                                                    true,
+                                                                    false,
+                                                                    false,
+                                                                    true,
+                                                                    false,
+                                                                    false)) :: []))
+                                                                    r'0
+                                                                    | LxCodeQuote ->
+                                                                    emit k
+                                                                    (app
+                                                                    carry
+                                                                    ((Ascii
+                                                                    (true,
+                                                                    false,
+                                                                    true,
+                                                                    false,
+                                                                    false,
+                                                                    true,
+                                                                    false,
+                                                                    false)) :: []))
+                                                                    r'0
+                                                                    | LxActionQuote ->
+                                                                    emit k
+                                                                    (app
+                                                                    carry
+                                                                    ((Ascii
+                                                                    (true,
+                                                                    false,
+                                                                    true,
+                                                                    false,
+                                                                    false,
+                                                                    true,
+                                                                    false,
+                                                                    false)) :: []))
+                                                                    r'0
+                                                                    | LxEOF ->
+                                                                    emit k
+                                                                    (app
+                                                                    carry
+                                                                    ((Ascii
+                                                                    (true,
+                                                                    false,
+                                                                    true,
+                                                                    false,
+                                                                    false,
+                                                                    true,
+                                                                    false,
+                                                                    false)) :: []))
+                                                                    r'0
+                                                                    | LxType ->
+                                                                    emit k
+                                                                    (app
+                                                                    carry
+                                                                    ((Ascii
+                                                                    (true,
+                                                                    false,
+                                                                    true,
+                                                                    false,
+                                                                    false,
+                                                                    true,
+                                                                    false,
+                                                                    false)) :: []))
+                                                                    r'0
+                                                                    | LxToken ->
+                                                                    emit k
+                                                                    (app
+                                                                    carry
+                                                                    ((Ascii
+                                                                    (true,
+                                                                    false,
+                                                                    true,
+                                                                    false,
+                                                                    false,
+                                                                    true,
+                                                                    false,
+                                                                    false)) :: []))
+                                                                    r'0
+                                                                    | LxUnion ->
+                                                                    (match 
+                                                                    union_body
+                                                                    r'0 with
+                                                                    | Some p0 ->
+                                                                    let (
+                                                                    v, r'') =
+                                                                    p0
+                                                                    in
+                                                                    emit
+                                                                    LxUnion v
+                                                                    r''
+                                                                    | None ->
+                                                                    ((errtok :: []),
+                                                                    Closed))
+                                                                    | LxLeft ->
+                                                                    emit k
+                                                                    (app
+                                                                    carry
+                                                                    ((Ascii
+                                                                    (true,
+                                                                    false,
+                                                                    true,
+                                                                    false,
+                                                                    false,
+                                                                    true,
+                                                                    false,
+                                                                    false)) :: []))
+                                                                    r'0
+                                                                    | LxRight ->
+                                                                    emit k
+                                                                    (app
+                                                                    carry
+                                                                    ((Ascii
+                                                                    (true,
+                                                                    false,
+                                                                    true,
+                                                                    false,
+                                                                    false,
+                                                                    true,
+                                                                    false,
+                                                                    false)) :: []))
+                                                                    r'0
+                                                                    | LxNone ->
+                                                                    emit k
+                                                                    (app
+                                                                    carry
+                                                                    ((Ascii
+                                                                    (true,
+                                                                    false,
+                                                                    true,
+                                                                    false,
+                                                                    false,
+                                                                    true,
+                                                                    false,
+                                                                    false)) :: []))
+                                                                    r'0
+                                                                    | LxPrec ->
+                                                                    emit k
+                                                                    (app
+                                                                    carry
+                                                                    ((Ascii
+                                                                    (true,
+                                                                    false,
+                                                                    true,
+                                                                    false,
+                                                                    false,
+                                                                    true,
+                                                                    false,
+                                                                    false)) :: []))
+                                                                    r'0
+                                                                    | LxPrecedence ->
+                                                                    emit k
+                                                                    (app
+                                                                    carry
+                                                                    ((Ascii
+                                                                    (true,
+                                                                    false,
+                                                                    true,
+                                                                    false,
+                                                                    false,
+                                                                    true,
+                                                                    false,
+                                                                    false)) :: []))
+                                                                    r'0
+                                                                    | LxStart ->
+                                                                    emit k
+                                                                    (app
+                                                                    carry
+                                                                    ((Ascii
+                                                                    (true,
+                                                                    false,
+                                                                    true,
+                                                                    false,
+                                                                    false,
+                                                                    true,
+                                                                    false,
+                                                                    false)) :: []))
+                                                                    r'0
+                                                                    | LxActionSelf ->
+                                                                    emit k
+                                                                    (app
+                                                                    carry
+                                                                    ((Ascii
+                                                                    (true,
+                                                                    false,
+                                                                    true,
+                                                                    false,
+                                                                    false,
+                                                                    true,
+                                                                    false,
+                                                                    false)) :: []))
+                                                                    r'0
+                                                                    | LxActionN ->
+                                                                    emit k
+                                                                    (app
+                                                                    carry
+                                                                    ((Ascii
+                                                                    (true,
+                                                                    false,
+                                                                    true,
+                                                                    false,
+                                                                    false,
+                                                                    true,
+                                                                    false,
+                                                                    false)) :: []))
+                                                                    r'0
+                                                                    | LxActionAccept ->
+                                                                    emit k
+                                                                    (app
+                                                                    carry
+                                                                    ((Ascii
+                                                                    (true,
+                                                                    false,
+                                                                    true,
+                                                                    false,
+                                                                    false,
+                                                                    true,
+                                                                    false,
+                                                                    false)) :: []))
+                                                                    r'0
+                                                                    | LxActionEnd ->
+                                                                    emit k
+                                                                    (app
+                                                                    carry
+                                                                    ((Ascii
+                                                                    (true,
+                                                                    false,
+                                                                    true,
+                                                                    false,
+                                                                    false,
+                                                                    true,
+                                                                    false,
+                                                                    false)) :: []))
+                                                                    r'0
+                                                                    | LxOr ->
+                                                                    emit k
+                                                                    (app
+                                                                    carry
+                                                                    ((Ascii
+                                                                    (true,
+                                                                    false,
+                                                                    true,
+                                                                    false,
+                                                                    false,
+                                                                    true,
+                                                                    false,
+                                                                    false)) :: []))
+                                                                    r'0
+                                                                    | LxDefine ->
+                                                                    emit k
+                                                                    (app
+                                                                    carry
+                                                                    ((Ascii
+                                                                    (true,
+                                                                    false,
+                                                                    true,
+                                                                    false,
+                                                                    false,
+                                                                    true,
+                                                                    false,
+                                                                    false)) :: []))
+                                                                    r'0
+                                                                    | LxEnd ->
+                                                                    emit k
+                                                                    (app
+                                                                    carry
+                                                                    ((Ascii
+                                                                    (true,
+                                                                    false,
+                                                                    true,
+                                                                    false,
+                                                                    false,
+                                                                    true,
+                                                                    false,
+                                                                    false)) :: []))
+                                                                    r'0
+                                                                    | LxLAngle ->
+                                                                    emit k
+                                                                    (app
+                                                                    carry
+                                                                    ((Ascii
+                                                                    (true,
+                                                                    false,
+                                                                    true,
+                                                                    false,
+                                                                    false,
+                                                                    true,
+                                                                    false,
+                                                                    false)) :: []))
+                                                                    r'0
+                                                                    | LxRAngle ->
+                                                                    emit k
+                                                                    (app
+                                                                    carry
+                                                                    ((Ascii
+                                                                    (true,
+                                                                    false,
+                                                                    true,
+                                                                    false,
+                                                                    false,
+                                                                    true,
+                                                                    false,
+                                                                    false)) :: []))
+                                                                    r'0
+                                                                    | LxChar ->
+                                                                    emit k
+                                                                    (app
+                                                                    carry
+                                                                    ((Ascii
+                                                                    (true,
+                                                                    false,
+                                                                    true,
+                                                                    false,
+                                                                    false,
+                                                                    true,
+                                                                    false,
+                                                                    false)) :: []))
+                                                                    r'0
+                                                                    | LxString ->
+                                                                    emit k
+                                                                    (app
+                                                                    carry
+                                                                    ((Ascii
+                                                                    (true,
+                                                                    false,
+                                                                    true,
+                                                                    false,
+                                                                    false,
+                                                                    true,
+                                                                    false,
+                                                                    false)) :: []))
+                                                                    r'0
+                                                                    | LxFuel ->
+                                                                    emit k
+                                                                    (app
+                                                                    carry
+                                                                    ((Ascii
+                                                                    (true,
+                                                                    false,
+                                                                    true,
+                                                                    false,
+                                                                    false,
+                                                                    true,
+                                                                    false,
+                                                                    false)) :: []))
+                                                                    r'0)
+                                                                  | None ->
+                                                                    lex_root
+                                                                    f
+                                                                    (app
+                                                                    carry
+                                                                    ((Ascii
+                                                                    (true,
+                                                                    false,
+                                                                    true,
+                                                                    false,
+                                                                    false,
+                                                                    true,
+                                                                    false,
+                                                                    false)) :: []))
+                                                                    r)
+                                                            else emit
+                                                                   LxSection
+                                                                   (app carry
+                                                                    ((Ascii
+                                                                    (true,
+                                                                    false,
+                                                                    true,
+                                                                    false,
+                                                                    false,
+                                                                    true,
+                                                                    false,
+                                                                    false)) :: ((Ascii
+                                                                    (true,
+                                                                    false,
+                                                                    true,
+                                                                    false,
+                                                                    false,
+                                                                    true,
+                                                                    false,
+                                                                    false)) :: [])))
+                                                                   r'
+                                                  else (match directive_word r with
+                                                        | Some p ->
+                                                          let (k, r'0) = p in
+                                                          (match k with
+                                                           | LxError ->
+                                                             emit k
+                                                               (app carry
+                                                                 ((Ascii
+                                                                 (true,
+                                                                 false, true,
+                                                                 false,
+                                                                 false, true,
+                                                                 false,
+                                                                 false)) :: []))
+                                                               r'0
+                                                           | LxIdentifier ->
+                                                             emit k
+                                                               (app carry
+                                                                 ((Ascii
+                                                                 (true,
+                                                                 false, true,
+                                                                 false,
+                                                                 false, true,
+                                                                 false,
+                                                                 false)) :: []))
+                                                               r'0
+                                                           | LxNumber ->
+                                                             emit k
+                                                               (app carry
+                                                                 ((Ascii
+                                                                 (true,
+                                                                 false, true,
+                                                                 false,
+                                                                 false, true,
+                                                                 false,
+                                                                 false)) :: []))
+                                                               r'0
+                                                           | LxSection ->
+                                                             emit k
+                                                               (app carry
+                                                                 ((Ascii
+                                                                 (true,
+                                                                 false, true,
+                                                                 false,
+                                                                 false, true,
+                                                                 false,
+                                                                 false)) :: []))
+                                                               r'0
+                                                           | LxCodeQuote ->
+                                                             emit k
+                                                               (app carry
+                                                                 ((Ascii
+                                                                 (true,
+                                                                 false, true,
+                                                                 false,
+                                                                 false, true,
+                                                                 false,
+                                                                 false)) :: []))
+                                                               r'0
+                                                           | LxActionQuote ->
+                                                             emit k
+                                                               (app carry
+                                                                 ((Ascii
+                                                                 (true,
+                                                                 false, true,
+                                                                 false,
+                                                                 false, true,
+                                                                 false,
+                                                                 false)) :: []))
+                                                               r'0
+                                                           | LxEOF ->
+                                                             emit k
+                                                               (app carry
+                                                                 ((Ascii
+                                                                 (true,
+                                                                 false, true,
+                                                                 false,
+                                                                 false, true,
+                                                                 false,
+                                                                 false)) :: []))
+                                                               r'0
+                                                           | LxType ->
+                                                             emit k
+                                                               (app carry
+                                                                 ((Ascii
+                                                                 (true,
+                                                                 false, true,
+                                                                 false,
+                                                                 false, true,
+                                                                 false,
+                                                                 false)) :: []))
+                                                               r'0
+                                                           | LxToken ->
+                                                             emit k
+                                                               (app carry
+                                                                 ((Ascii
+                                                                 (true,
+                                                                 false, true,
+                                                                 false,
+                                                                 false, true,
+                                                                 false,
+                                                                 false)) :: []))
+                                                               r'0
+                                                           | LxUnion ->
+                                                             (match union_body
+                                                                    r'0 with
+                                                              | Some p0 ->
+                                                                let (
+                                                                  v, r'') = p0
+                                                                in
+                                                                emit LxUnion
+                                                                  v r''
+                                                              | None ->
+                                                                ((errtok :: []),
+                                                                  Closed))
+                                                           | LxLeft ->
+                                                             emit k
+                                                               (app carry
+                                                                 ((Ascii
+                                                                 (true,
+                                                                 false, true,
+                                                                 false,
+                                                                 false, true,
+                                                                 false,
+                                                                 false)) :: []))
+                                                               r'0
+                                                           | LxRight ->
+                                                             emit k
+                                                               (app carry
+                                                                 ((Ascii
+                                                                 (true,
+                                                                 false, true,
+                                                                 false,
+                                                                 false, true,
+                                                                 false,
+                                                                 false)) :: []))
+                                                               r'0
+                                                           | LxNone ->
+                                                             emit k
+                                                               (app carry
+                                                                 ((Ascii
+                                                                 (true,
+                                                                 false, true,
+                                                                 false,
+                                                                 false, true,
+                                                                 false,
+                                                                 false)) :: []))
+                                                               r'0
+                                                           | LxPrec ->
+                                                             emit k
+                                                               (app carry
+                                                                 ((Ascii
+                                                                 (true,
+                                                                 false, true,
+                                                                 false,
+                                                                 false, true,
+                                                                 false,
+                                                                 false)) :: []))
+                                                               r'0
+                                                           | LxPrecedence ->
+                                                             emit k
+                                                               (app carry
+                                                                 ((Ascii
+                                                                 (true,
+                                                                 false, true,
+                                                                 false,
+                                                                 false, true,
+                                                                 false,
+                                                                 false)) :: []))
+                                                               r'0
+                                                           | LxStart ->
+                                                             emit k
+                                                               (app carry
+                                                                 ((Ascii
+                                                                 (true,
+                                                                 false, true,
+                                                                 false,
+                                                                 false, true,
+                                                                 false,
+                                                                 false)) :: []))
+                                                               r'0
+                                                           | LxActionSelf ->
+                                                             emit k
+                                                               (app carry
+                                                                 ((Ascii
+                                                                 (true,
+                                                                 false, true,
+                                                                 false,
+                                                                 false, true,
+                                                                 false,
+                                                                 false)) :: []))
+                                                               r'0
+                                                           | LxActionN ->
+                                                             emit k
+                                                               (app carry
+                                                                 ((Ascii
+                                                                 (true,
+                                                                 false, true,
+                                                                 false,
+                                                                 false, true,
+                                                                 false,
+                                                                 false)) :: []))
+                                                               r'0
+                                                           | LxActionAccept ->
+                                                             emit k
+                                                               (app carry
+                                                                 ((Ascii
+                                                                 (true,
+                                                                 false, true,
+                                                                 false,
+                                                                 false, true,
+                                                                 false,
+                                                                 false)) :: []))
+                                                               r'0
+                                                           | LxActionEnd ->
+                                                             emit k
+                                                               (app carry
+                                                                 ((Ascii
+                                                                 (true,
+                                                                 false, true,
+                                                                 false,
+                                                                 false, true,
+                                                                 false,
+                                                                 false)) :: []))
+                                                               r'0
+                                                           | LxOr ->
+                                                             emit k
+                                                               (app carry
+                                                                 ((Ascii
+                                                                 (true,
+                                                                 false, true,
+                                                                 false,
+                                                                 false, true,
+                                                                 false,
+                                                                 false)) :: []))
+                                                               r'0
+                                                           | LxDefine ->
+                                                             emit k
+                                                               (app carry
+                                                                 ((Ascii
+                                                                 (true,
+                                                                 false, true,
+                                                                 false,
+                                                                 false, true,
+                                                                 false,
+                                                                 false)) :: []))
+                                                               r'0
+                                                           | LxEnd ->
+                                                             emit k
+                                                               (app carry
+                                                                 ((Ascii
+                                                                 (true,
+                                                                 false, true,
+                                                                 false,
+                                                                 false, true,
+                                                                 false,
+                                                                 false)) :: []))
+                                                               r'0
+                                                           | LxLAngle ->
+                                                             emit k
+                                                               (app carry
+                                                                 ((Ascii
+                                                                 (true,
+                                                                 false, true,
+                                                                 false,
+                                                                 false, true,
+                                                                 false,
+                                                                 false)) :: []))
+                                                               r'0
+                                                           | LxRAngle ->
+                                                             emit k
+                                                               (app carry
+                                                                 ((Ascii
+                                                                 (true,
+                                                                 false, true,
+                                                                 false,
+                                                                 false, true,
+                                                                 false,
+                                                                 false)) :: []))
+                                                               r'0
+                                                           | LxChar ->
+                                                             emit k
+                                                               (app carry
+                                                                 ((Ascii
+                                                                 (true,
+                                                                 false, true,
+                                                                 false,
+                                                                 false, true,
+                                                                 false,
+                                                                 false)) :: []))
+                                                               r'0
+                                                           | LxString ->
+                                                             emit k
+                                                               (app carry
+                                                                 ((Ascii
+                                                                 (true,
+                                                                 false, true,
+                                                                 false,
+                                                                 false, true,
+                                                                 false,
+                                                                 false)) :: []))
+                                                               r'0
+                                                           | LxFuel ->
+                                                             emit k
+                                                               (app carry
+                                                                 ((Ascii
+                                                                 (true,
+                                                                 false, true,
+                                                                 false,
+                                                                 false, true,
+                                                                 false,
+                                                                 false)) :: []))
+                                                               r'0)
+                                                        | None ->
+                                                          lex_root f
+                                                            (app carry
+                                                              ((Ascii (true,
+                                                              false, true,
+                                                              false, false,
+                                                              true, false,
+                                                              false)) :: []))
+                                                            r)
+                                   else (match directive_word r with
+                                         | Some p ->
+                                           let (k, r'0) = p in
+                                           (match k with
+                                            | LxError ->
+                                              emit k
+                                                (app carry ((Ascii (true,
+                                                  false, true, false, false,
+                                                  true, false, false)) :: []))
+                                                r'0
+                                            | LxIdentifier ->
+                                              emit k
+                                                (app carry ((Ascii (true,
+                                                  false, true, false, false,
+                                                  true, false, false)) :: []))
+                                                r'0
+                                            | LxNumber ->
+                                              emit k
+                                                (app carry ((Ascii (true,
+                                                  false, true, false, false,
+                                                  true, false, false)) :: []))
+                                                r'0
+                                            | LxSection ->
+                                              emit k
+                                                (app carry ((Ascii (true,
+                                                  false, true, false, false,
+                                                  true, false, false)) :: []))
+                                                r'0
+                                            | LxCodeQuote ->
+                                              emit k
+                                                (app carry ((Ascii (true,
+                                                  false, true, false, false,
+                                                  true, false, false)) :: []))
+                                                r'0
+                                            | LxActionQuote ->
+                                              emit k
+                                                (app carry ((Ascii (true,
+                                                  false, true, false, false,
+                                                  true, false, false)) :: []))
+                                                r'0
+                                            | LxEOF ->
+                                              emit k
+                                                (app carry ((Ascii (true,
+                                                  false, true, false, false,
+                                                  true, false, false)) :: []))
+                                                r'0
+                                            | LxType ->
+                                              emit k
+                                                (app carry ((Ascii (true,
+                                                  false, true, false, false,
+                                                  true, false, false)) :: []))
+                                                r'0
+                                            | LxToken ->
+                                              emit k
+                                                (app carry ((Ascii (true,
+                                                  false, true, false, false,
+                                                  true, false, false)) :: []))
+                                                r'0
+                                            | LxUnion ->
+                                              (match union_body r'0 with
+                                               | Some p0 ->
+                                                 let (v, r'') = p0 in
+                                                 emit LxUnion v r''
+                                               | None ->
+                                                 ((errtok :: []), Closed))
+                                            | LxLeft ->
+                                              emit k
+                                                (app carry ((Ascii (true,
+                                                  false, true, false, false,
+                                                  true, false, false)) :: []))
+                                                r'0
+                                            | LxRight ->
+                                              emit k
+                                                (app carry ((Ascii (true,
+                                                  false, true, false, false,
+                                                  true, false, false)) :: []))
+                                                r'0
+                                            | LxNone ->
+                                              emit k
+                                                (app carry ((Ascii (true,
+                                                  false, true, false, false,
+                                                  true, false, false)) :: []))
+                                                r'0
+                                            | LxPrec ->
+                                              emit k
+                                                (app carry ((Ascii (true,
+                                                  false, true, false, false,
+                                                  true, false, false)) :: []))
+                                                r'0
+                                            | LxPrecedence ->
+                                              emit k
+                                                (app carry ((Ascii (true,
+                                                  false, true, false, false,
+                                                  true, false, false)) :: []))
+                                                r'0
+                                            | LxStart ->
+                                              emit k
+                                                (app carry ((Ascii (true,
+                                                  false, true, false, false,
+                                                  true, false, false)) :: []))
+                                                r'0
+                                            | LxActionSelf ->
+                                              emit k
+                                                (app carry ((Ascii (true,
+                                                  false, true, false, false,
+                                                  true, false, false)) :: []))
+                                                r'0
+                                            | LxActionN ->
+                                              emit k
+                                                (app carry ((Ascii (true,
+                                                  false, true, false, false,
+                                                  true, false, false)) :: []))
+                                                r'0
+                                            | LxActionAccept ->
+                                              emit k
+                                                (app carry ((Ascii (true,
+                                                  false, true, false, false,
+                                                  true, false, false)) :: []))
+                                                r'0
+                                            | LxActionEnd ->
+                                              emit k
+                                                (app carry ((Ascii (true,
+                                                  false, true, false, false,
+                                                  true, false, false)) :: []))
+                                                r'0
+                                            | LxOr ->
+                                              emit k
+                                                (app carry ((Ascii (true,
+                                                  false, true, false, false,
+                                                  true, false, false)) :: []))
+                                                r'0
+                                            | LxDefine ->
+                                              emit k
+                                                (app carry ((Ascii (true,
+                                                  false, true, false, false,
+                                                  true, false, false)) :: []))
+                                                r'0
+                                            | LxEnd ->
+                                              emit k
+                                                (app carry ((Ascii (true,
+                                                  false, true, false, false,
+                                                  true, false, false)) :: []))
+                                                r'0
+                                            | LxLAngle ->
+                                              emit k
+                                                (app carry ((Ascii (true,
+                                                  false, true, false, false,
+                                                  true, false, false)) :: []))
+                                                r'0
+                                            | LxRAngle ->
+                                              emit k
+                                                (app carry ((Ascii (true,
+                                                  false, true, false, false,
+                                                  true, false, false)) :: []))
+                                                r'0
+                                            | LxChar ->
+                                              emit k
+                                                (app carry ((Ascii (true,
+                                                  false, true, false, false,
+                                                  true, false, false)) :: []))
+                                                r'0
+                                            | LxString ->
+                                              emit k
+                                                (app carry ((Ascii (true,
+                                                  false, true, false, false,
+                                                  true, false, false)) :: []))
+                                                r'0
+                                            | LxFuel ->
+                                              emit k
+                                                (app carry ((Ascii (true,
+                                                  false, true, false, false,
+                                                  true, false, false)) :: []))
+                                                r'0)
+                                         | None ->
+                                           lex_root f
+                                             (app carry ((Ascii (true, false,
+                                               true, false, false, true,
+                                               false, false)) :: [])) r)
+                         else (match directive_word r with
+                               | Some p ->
+                                 let (k, r'0) = p in
+                                 (match k with
+                                  | LxError ->
+                                    emit k
+                                      (app carry ((Ascii (true, false, true,
+                                        false, false, true, false,
+                                        false)) :: [])) r'0
+                                  | LxIdentifier ->
+                                    emit k
+                                      (app carry ((Ascii (true, false, true,
+                                        false, false, true, false,
+                                        false)) :: [])) r'0
+                                  | LxNumber ->
+                                    emit k
+                                      (app carry ((Ascii (true, false, true,
+                                        false, false, true, false,
+                                        false)) :: [])) r'0
+                                  | LxSection ->
+                                    emit k
+                                      (app carry ((Ascii (true, false, true,
+                                        false, false, true, false,
+                                        false)) :: [])) r'0
+                                  | LxCodeQuote ->
+                                    emit k
+                                      (app carry ((Ascii (true, false, true,
+                                        false, false, true, false,
+                                        false)) :: [])) r'0
+                                  | LxActionQuote ->
+                                    emit k
+                                      (app carry ((Ascii (true, false, true,
+                                        false, false, true, false,
+                                        false)) :: [])) r'0
+                                  | LxEOF ->
+                                    emit k
+                                      (app carry ((Ascii (true, false, true,
+                                        false, false, true, false,
+                                        false)) :: [])) r'0
+                                  | LxType ->
+                                    emit k
+                                      (app carry ((Ascii (true, false, true,
+                                        false, false, true, false,
+                                        false)) :: [])) r'0
+                                  | LxToken ->
+                                    emit k
+                                      (app carry ((Ascii (true, false, true,
+                                        false, false, true, false,
+                                        false)) :: [])) r'0
+                                  | LxUnion ->
+                                    (match union_body r'0 with
+                                     | Some p0 ->
+                                       let (v, r'') = p0 in emit LxUnion v r''
+                                     | None -> ((errtok :: []), Closed))
+                                  | LxLeft ->
+                                    emit k
+                                      (app carry ((Ascii (true, false, true,
+                                        false, false, true, false,
+                                        false)) :: [])) r'0
+                                  | LxRight ->
+                                    emit k
+                                      (app carry ((Ascii (true, false, true,
+                                        false, false, true, false,
+                                        false)) :: [])) r'0
+                                  | LxNone ->
+                                    emit k
+                                      (app carry ((Ascii (true, false, true,
+                                        false, false, true, false,
+                                        false)) :: [])) r'0
+                                  | LxPrec ->
+                                    emit k
+                                      (app carry ((Ascii (true, false, true,
+                                        false, false, true, false,
+                                        false)) :: [])) r'0
+                                  | LxPrecedence ->
+                                    emit k
+                                      (app carry ((Ascii (true, false, true,
+                                        false, false, true, false,
+                                        false)) :: [])) r'0
+                                  | LxStart ->
+                                    emit k
+                                      (app carry ((Ascii (true, false, true,
+                                        false, false, true, false,
+                                        false)) :: [])) r'0
+                                  | LxActionSelf ->
+                                    emit k
+                                      (app carry ((Ascii (true, false, true,
+                                        false, false, true, false,
+                                        false)) :: [])) r'0
+                                  | LxActionN ->
+                                    emit k
+                                      (app carry ((Ascii (true, false, true,
+                                        false, false, true, false,
+                                        false)) :: [])) r'0
+                                  | LxActionAccept ->
+                                    emit k
+                                      (app carry ((Ascii (true, false, true,
+                                        false, false, true, false,
+                                        false)) :: [])) r'0
+                                  | LxActionEnd ->
+                                    emit k
+                                      (app carry ((Ascii (true, false, true,
+                                        false, false, true, false,
+                                        false)) :: [])) r'0
+                                  | LxOr ->
+                                    emit k
+                                      (app carry ((Ascii (true, false, true,
+                                        false, false, true, false,
+                                        false)) :: [])) r'0
+                                  | LxDefine ->
+                                    emit k
+                                      (app carry ((Ascii (true, false, true,
+                                        false, false, true, false,
+                                        false)) :: [])) r'0
+                                  | LxEnd ->
+                                    emit k
+                                      (app carry ((Ascii (true, false, true,
+                                        false, false, true, false,
+                                        false)) :: [])) r'0
+                                  | LxLAngle ->
+                                    emit k
+                                      (app carry ((Ascii (true, false, true,
+                                        false, false, true, false,
+                                        false)) :: [])) r'0
+                                  | LxRAngle ->
+                                    emit k
+                                      (app carry ((Ascii (true, false, true,
+                                        false, false, true, false,
+                                        false)) :: [])) r'0
+                                  | LxChar ->
+                                    emit k
+                                      (app carry ((Ascii (true, false, true,
+                                        false, false, true, false,
+                                        false)) :: [])) r'0
+                                  | LxString ->
+                                    emit k
+                                      (app carry ((Ascii (true, false, true,
+                                        false, false, true, false,
+                                        false)) :: [])) r'0
+                                  | LxFuel ->
+                                    emit k
+                                      (app carry ((Ascii (true, false, true,
+                                        false, false, true, false,
+                                        false)) :: [])) r'0)
+                               | None ->
+                                 lex_root f
+                                   (app carry ((Ascii (true, false, true,
+                                     false, false, true, false,
+                                     false)) :: [])) r))
+                 else if eqb0 c (Ascii (false, false, true, false, false,
+                           true, false, false))
+                      then (match r with
+                            | [] ->
+                              ((errtok :: ({ t_kind = LxEOF; t_value = [];
+                                t_rest = [] } :: [])), Closed)
+                            | d0 :: r' ->
+                              let Ascii (b, b0, b1, b2, b3, b4, b5, b6) = d0
+                              in
+                              if b
+                              then if is_digit d0
+                                   then let (ds, r'') = take_while is_digit r'
+                                        in
+                                        emit LxActionN
+                                          (app carry ((Ascii (false, false,
+                                            true, false, false, true, false,
+                                            false)) :: (d0 :: ds))) r''
+                                   else (match accept_alpha_word w_accept r' with
+                                         | Some r'' ->
+                                           emit LxActionAccept
+                                             (app carry ((Ascii (false,
+                                               false, true, false, false,
+                                               true, false, false)) :: []))
+                                             r''
+                                         | None ->
+                                           (match accept_alpha_word w_end r' with
+                                            | Some r'' ->
+                                              emit LxActionEnd
+                                                (app carry ((Ascii (false,
+                                                  false, true, false, false,
+                                                  true, false, false)) :: []))
+                                                r''
+                                            | None ->
+                                              let (ts, tl0) =
+                                                lex_root f
+                                                  (app carry ((Ascii (false,
+                                                    false, true, false,
+                                                    false, true, false,
+                                                    false)) :: (d0 :: []))) r'
+                                              in
+                                              ((errtok :: ts), tl0)))
+                              else if b0
+                                   then if is_digit d0
+                                        then let (ds, r'') =
+                                               take_while is_digit r'
+                                             in
+                                             emit LxActionN
+                                               (app carry ((Ascii (false,
+                                                 false, true, false, false,
+                                                 true, false,
+                                                 false)) :: (d0 :: ds))) r''
+                                        else (match accept_alpha_word
+                                                      w_accept r' with
+                                              | Some r'' ->
+                                                emit LxActionAccept
+                                                  (app carry ((Ascii (false,
+                                                    false, true, false,
+                                                    false, true, false,
+                                                    false)) :: [])) r''
+                                              | None ->
+                                                (match accept_alpha_word
+                                                         w_end r' with
+                                                 | Some r'' ->
+                                                   emit LxActionEnd
+                                                     (app carry ((Ascii
+                                                       (false, false, true,
+                                                       false, false, true,
+                                                       false, false)) :: []))
+                                                     r''
+                                                 | None ->
+                                                   let (ts, tl0) =
+                                                     lex_root f
+                                                       (app carry ((Ascii
+                                                         (false, false, true,
+                                                         false, false, true,
+                                                         false,
+                                                         false)) :: (d0 :: [])))
+                                                       r'
+                                                   in
+                                                   ((errtok :: ts), tl0)))
+                                   else if b1
+                                        then if b2
+                                             then if is_digit d0
+                                                  then let (ds, r'') =
+                                                         take_while is_digit
+                                                           r'
+                                                       in
+                                                       emit LxActionN
+                                                         (app carry ((Ascii
+                                                           (false, false,
+                                                           true, false,
+                                                           false, true,
+                                                           false,
+                                                           false)) :: (d0 :: ds)))
+                                                         r''
+                                                  else (match accept_alpha_word
+                                                                w_accept r' with
+                                                        | Some r'' ->
+                                                          emit LxActionAccept
+                                                            (app carry
+                                                              ((Ascii (false,
+                                                              false, true,
+                                                              false, false,
+                                                              true, false,
+                                                              false)) :: []))
+                                                            r''
+                                                        | None ->
+                                                          (match accept_alpha_word
+                                                                   w_end r' with
+                                                           | Some r'' ->
+                                                             emit LxActionEnd
+                                                               (app carry
+                                                                 ((Ascii
+                                                                 (false,
+                                                                 false, true,
+                                                                 false,
+                                                                 false, true,
+                                                                 false,
+                                                                 false)) :: []))
+                                                               r''
+                                                           | None ->
+                                                             let (ts, tl0) =
+                                                               lex_root f
+                                                                 (app carry
+                                                                   ((Ascii
+                                                                   (false,
+                                                                   false,
+                                                                   true,
+                                                                   false,
+                                                                   false,
+                                                                   true,
+                                                                   false,
+                                                                   false)) :: (d0 :: [])))
+                                                                 r'
+                                                             in
+                                                             ((errtok :: ts),
+                                                             tl0)))
+                                             else if b3
+                                                  then if is_digit d0
+                                                       then let (ds, r'') =
+                                                              take_while
+                                                                is_digit r'
+                                                            in
+                                                            emit LxActionN
+                                                              (app carry
+                                                                ((Ascii
+                                                                (false,
+                                                                false, true,
+                                                                false, false,
+                                                                true, false,
+                                                                false)) :: (d0 :: ds)))
+                                                              r''
+                                                       else (match accept_alpha_word
+                                                                    w_accept
+                                                                    r' with
+                                                             | Some r'' ->
+                                                               emit
+                                                                 LxActionAccept
+                                                                 (app carry
+                                                                   ((Ascii
+                                                                   (false,
+                                                                   false,
+                                                                   true,
+                                                                   false,
+                                                                   false,
+                                                                   true,
+                                                                   false,
+                                                                   false)) :: []))
+                                                                 r''
+                                                             | None ->
+                                                               (match 
+                                                                accept_alpha_word
+                                                                  w_end r' with
+                                                                | Some r'' ->
+                                                                  emit
+                                                                    LxActionEnd
+                                                                    (app
+                                                                    carry
+                                                                    ((Ascii
+                                                                    (false,
+                                                                    false,
+                                                                    true,
+                                                                    false,
+                                                                    false,
+                                                                    true,
+                                                                    false,
+                                                                    false)) :: []))
+                                                                    r''
+                                                                | None ->
+                                                                  let (
+                                                                    ts, tl0) =
+                                                                    lex_root
+                                                                    f
+                                                                    (app
+                                                                    carry
+                                                                    ((Ascii
+                                                                    (false,
+                                                                    false,
+                                                                    true,
+                                                                    false,
+                                                                    false,
+                                                                    true,
+                                                                    false,
+                                                                    false)) :: (d0 :: [])))
+                                                                    r'
+                                                                  in
+                                                                  ((errtok :: ts),
+                                                                  tl0)))
+                                                  else if b4
+                                                       then if b5
+                                                            then if is_digit
+                                                                    d0
+                                                                 then 
+                                                                   let (
+                                                                    ds, r'') =
+                                                                    take_while
+                                                                    is_digit
+                                                                    r'
+                                                                   in
+                                                                   emit
+                                                                    LxActionN
+                                                                    (app
+                                                                    carry
+                                                                    ((Ascii
+                                                                    (false,
+                                                                    false,
+                                                                    true,
+                                                                    false,
+                                                                    false,
+                                                                    true,
+                                                                    false,
+                                                                    false)) :: (d0 :: ds)))
+                                                                    r''
+                                                                 else 
+                                                                   (match 
+                                                                    accept_alpha_word
+                                                                    w_accept
+                                                                    r' with
+                                                                    | Some r'' ->
+                                                                    emit
+                                                                    LxActionAccept
+                                                                    (app
+                                                                    carry
+                                                                    ((Ascii
+                                                                    (false,
+                                                                    false,
+                                                                    true,
+                                                                    false,
+                                                                    false,
+                                                                    true,
+                                                                    false,
+                                                                    false)) :: []))
+                                                                    r''
+                                                                    | None ->
+                                                                    (match 
+                                                                    accept_alpha_word
+                                                                    w_end r' with
+                                                                    | Some r'' ->
+                                                                    emit
+                                                                    LxActionEnd
+                                                                    (app
+                                                                    carry
+                                                                    ((Ascii
+                                                                    (false,
+                                                                    false,
+                                                                    true,
+                                                                    false,
+                                                                    false,
+                                                                    true,
+                                                                    false,
+                                                                    false)) :: []))
+                                                                    r''
+                                                                    | None ->
+                                                                    let (
+                                                                    ts, tl0) =
+                                                                    lex_root
+                                                                    f
+                                                                    (app
+                                                                    carry
+                                                                    ((Ascii
+                                                                    (false,
+                                                                    false,
+                                                                    true,
+                                                                    false,
+                                                                    false,
+                                                                    true,
+                                                                    false,
+                                                                    false)) :: (d0 :: [])))
+                                                                    r'
+                                                                    in
+                                                                    ((errtok :: ts),
+                                                                    tl0)))
+                                                            else if b6
+                                                                 then 
+                                                                   if 
+                                                                    is_digit
+                                                                    d0
+                                                                   then 
+                                                                    let (
+                                                                    ds, r'') =
+                                                                    take_while
+                                                                    is_digit
+                                                                    r'
+                                                                    in
+                                                                    emit
+                                                                    LxActionN
+                                                                    (app
+                                                                    carry
+                                                                    ((Ascii
+                                                                    (false,
+                                                                    false,
+                                                                    true,
+                                                                    false,
+                                                                    false,
+                                                                    true,
+                                                                    false,
+                                                                    false)) :: (d0 :: ds)))
+                                                                    r''
+                                                                   else 
+                                                                    (match 
+                                                                    accept_alpha_word
+                                                                    w_accept
+                                                                    r' with
+                                                                    | Some r'' ->
+                                                                    emit
+                                                                    LxActionAccept
+                                                                    (app
+                                                                    carry
+                                                                    ((Ascii
+                                                                    (false,
+                                                                    false,
+                                                                    true,
+                                                                    false,
+                                                                    false,
+                                                                    true,
+                                                                    false,
+                                                                    false)) :: []))
+                                                                    r''
+                                                                    | None ->
+                                                                    (match 
+                                                                    accept_alpha_word
+                                                                    w_end r' with
+                                                                    | Some r'' ->
+                                                                    emit
+                                                                    LxActionEnd
+                                                                    (app
+                                                                    carry
+                                                                    ((Ascii
+                                                                    (false,
+                                                                    false,
+                                                                    true,
+                                                                    false,
+                                                                    false,
+                                                                    true,
+                                                                    false,
+                                                                    false)) :: []))
+                                                                    r''
+                                                                    | None ->
+                                                                    let (
+                                                                    ts, tl0) =
+                                                                    lex_root
+                                                                    f
+                                                                    (app
+                                                                    carry
+                                                                    ((Ascii
+                                                                    (false,
+                                                                    false,
+                                                                    true,
+                                                                    false,
+                                                                    false,
+                                                                    true,
+                                                                    false,
+                                                                    false)) :: (d0 :: [])))
+                                                                    r'
+                                                                    in
+                                                                    ((errtok :: ts),
+                                                                    tl0)))
+                                                                 else 
+                                                                   emit
+                                                                    LxActionSelf
+                                                                    (app
+                                                                    carry
+                                                                    ((Ascii
+                                                                    (false,
+                                                                    false,
+                                                                    true,
+                                                                    false,
+                                                                    false,
+                                                                    true,
+                                                                    false,
+                                                                    false)) :: ((Ascii
+                                                                    (false,
+                                                                    false,
+                                                                    true,
+                                                                    false,
+                                                                    false,
+                                                                    true,
+                                                                    false,
+                                                                    false)) :: [])))
+                                                                    r'
+                                                       else if is_digit d0
+                                                            then let (
+                                                                   ds, r'') =
+                                                                   take_while
+                                                                    is_digit
+                                                                    r'
+                                                                 in
+                                                                 emit
+                                                                   LxActionN
+                                                                   (app carry
+                                                                    ((Ascii
+                                                                    (false,
+                                                                    false,
+                                                                    true,
+                                                                    false,
+                                                                    false,
+                                                                    true,
+                                                                    false,
+                                                                    false)) :: (d0 :: ds)))
+                                                                   r''
+                                                            else (match 
+                                                                  accept_alpha_word
+                                                                    w_accept
+                                                                    r' with
+                                                                  | Some r'' ->
+                                                                    emit
+                                                                    LxActionAccept
+                                                                    (app
+                                                                    carry
+                                                                    ((Ascii
+                                                                    (false,
+                                                                    false,
+                                                                    true,
+                                                                    false,
+                                                                    false,
+                                                                    true,
+                                                                    false,
+                                                                    false)) :: []))
+                                                                    r''
+                                                                  | None ->
+                                                                    (match 
+                                                                    accept_alpha_word
+                                                                    w_end r' with
+                                                                    | Some r'' ->
+                                                                    emit
+                                                                    LxActionEnd
+                                                                    (app
+                                                                    carry
+                                                                    ((Ascii
+                                                                    (false,
+                                                                    false,
+                                                                    true,
+                                                                    false,
+                                                                    false,
+                                                                    true,
+                                                                    false,
+                                                                    false)) :: []))
+                                                                    r''
+                                                                    | None ->
+                                                                    let (
+                                                                    ts, tl0) =
+                                                                    lex_root
+                                                                    f
+                                                                    (app
+                                                                    carry
+                                                                    ((Ascii
+                                                                    (false,
+                                                                    false,
+                                                                    true,
+                                                                    false,
+                                                                    false,
+                                                                    true,
+                                                                    false,
+                                                                    false)) :: (d0 :: [])))
+                                                                    r'
+                                                                    in
+                                                                    ((errtok :: ts),
+                                                                    tl0)))
+                                        else if is_digit d0
+                                             then let (ds, r'') =
+                                                    take_while is_digit r'
+                                                  in
+                                                  emit LxActionN
+                                                    (app carry ((Ascii
+                                                      (false, false, true,
+                                                      false, false, true,
+                                                      false,
+                                                      false)) :: (d0 :: ds)))
+                                                    r''
+                                             else (match accept_alpha_word
+                                                           w_accept r' with
+                                                   | Some r'' ->
+                                                     emit LxActionAccept
+                                                       (app carry ((Ascii
+                                                         (false, false, true,
+                                                         false, false, true,
+                                                         false,
+                                                         false)) :: [])) r''
+                                                   | None ->
+                                                     (match accept_alpha_word
+                                                              w_end r' with
+                                                      | Some r'' ->
+                                                        emit LxActionEnd
+                                                          (app carry ((Ascii
+                                                            (false, false,
+                                                            true, false,
+                                                            false, true,
+                                                            false,
+                                                            false)) :: []))
+                                                          r''
+                                                      | None ->
+                                                        let (ts, tl0) =
+                                                          lex_root f
+                                                            (app carry
+                                                              ((Ascii (false,
+                                                              false, true,
+                                                              false, false,
+                                                              true, false,
+                                                              false)) :: (d0 :: [])))
+                                                            r'
+                                                        in
+                                                        ((errtok :: ts), tl0))))
+                      else if eqb0 c (Ascii (false, false, true, true, true,
+                                true, true, false))
+                           then emit LxOr (app carry (c :: [])) r
+                           else if eqb0 c (Ascii (false, true, false, true,
+                                     true, true, false, false))
+                                then emit LxDefine (app carry (c :: [])) r
+                                else if eqb0 c (Ascii (true, true, false,
+                                          true, true, true, false, false))
+                                     then emit LxEnd (app carry (c :: [])) r
+                                     else if is_ws c
+                                          then lex_root f [] r
+                                          else if eqb0 c quote
+                                               then (match r with
+                                                     | [] ->
+                                                       ((errtok :: []),
+                                                         Closed)
+                                                     | d0 :: r' ->
+                                                       if eqb0 d0 bslash
+                                                       then (match r' with
+                                                             | [] ->
+                                                               ((errtok :: []),
+                                                                 Closed)
+                                                             | e :: r'' ->
+                                                               if eqb0 e quote
+                                                               then emit
+                                                                    LxChar
+                                                                    (quote :: [])
+                                                                    r''
+                                                               else ((errtok :: []),
+                                                                    Closed))
+                                                       else (match r' with
+                                                             | [] ->
+                                                               ((errtok :: []),
+                                                                 Closed)
+                                                             | e :: r'' ->
+                                                               if eqb0 e quote
+                                                               then emit
+                                                                    LxChar
+                                                                    (d0 :: [])
+                                                                    r''
+                                                               else ((errtok :: []),
+                                                                    Closed)))
+                                               else if eqb0 c dquote
+                                                    then (match string_body r with
+                                                          | Some p ->
+                                                            let (v, r') = p in
+                                                            emit LxString v r'
+                                                          | None ->
+                                                            ((errtok :: []),
+                                                              Closed))
+                                                    else if (||)
+                                                              (is_letter c)
+                                                              (eqb0 c (Ascii
+                                                                (true, true,
+                                                                true, true,
+                                                                true, false,
+                                                                true, false)))
+                                                         then let (cs, r') =
+                                                                take_while
+                                                                  is_idch r
+                                                              in
+                                                              emit
+                                                                LxIdentifier
+                                                                (app carry
+                                                                  (c :: cs))
+                                                                r'
+                                                         else if eqb0 c
+                                                                   (Ascii
+                                                                   (false,
+                                                                   false,
+                                                                   true,
+                                                                   true,
+                                                                   true,
+                                                                   true,
+                                                                   false,
+                                                                   false))
+                                                              then emit
+                                                                    LxLAngle
+                                                                    (app
+                                                                    carry
+                                                                    (c :: []))
+                                                                    r
+                                                              else if 
+                                                                    eqb0 c
+                                                                    (Ascii
+                                                                    (false,
+                                                                    true,
+                                                                    true,
+                                                                    true,
+                                                                    true,
+                                                                    true,
+                                                                    false,
+                                                                    false))
+                                                                   then 
+                                                                    emit
+                                                                    LxRAngle
+                                                                    (app
+                                                                    carry
+                                                                    (c :: []))
+                                                                    r
+                                                                   else 
+                                                                    if 
+                                                                    is_digit c
+                                                                    then 
+                                                                    let (
+                                                                    ds, r') =
+                                                                    take_while
+                                                                    is_digit r
+                                                                    in
+                                                                    emit
+                                                                    LxNumber
+                                                                    (app
+                                                                    carry
+                                                                    (c :: ds))
+                                                                    r'
+                                                                    else 
+                                                                    if 
+                                                                    eqb0 c
+                                                                    (Ascii
+                                                                    (true,
+                                                                    false,
+                                                                    true,
+                                                                    true,
+                                                                    false,
+                                                                    true,
+                                                                    false,
+                                                                    false))
+                                                                    then 
+                                                                    let (
+                                                                    ds, r') =
+                                                                    take_while
+                                                                    is_digit r
+                                                                    in
+                                                                    emit
+                                                                    LxNumber
+                                                                    (app
+                                                                    carry
+                                                                    (c :: ds))
+                                                                    r'
+                                                                    else 
+                                                                    if 
+                                                                    eqb0 c
+                                                                    (Ascii
+                                                                    (true,
+                                                                    true,
+                                                                    false,
+                                                                    true,
+                                                                    true,
+                                                                    true,
+                                                                    true,
+                                                                    false))
+                                                                    then 
+                                                                    (match 
+                                                                    braces (S
+                                                                    O) r with
+                                                                    | Some p ->
+                                                                    let (
+                                                                    a, r') = p
+                                                                    in
+                                                                    emit
+                                                                    LxActionQuote
+                                                                    (app
+                                                                    carry
+                                                                    (c :: a))
+                                                                    r'
+                                                                    | None ->
+                                                                    ((errtok :: []),
+                                                                    Closed))
+                                                                    else 
+                                                                    ((errtok :: []),
+                                                                    Closed))
+
+(** val lex : ascii list -> tok0 list * tail **)
+
+let lex s =
+  lex_root (S (length s)) [] s
